@@ -12,273 +12,558 @@ Definition show_fres (r : fres) : string :=
   end.
 Definition check (rs : list rune) : string := digest (show_fres (format_res rs)).
 Definition full (rs : list rune) : string := show_fres (format_res rs).
-Eval vm_compute in ("<<<M4304>>>" ++ check (runes_of_ascii "root packet i64_ {
-    u64 Z9_ @lengthOf(uint8x) `
-        `,
-    repeat zchar x,
-    match Packet as a1 {
-        [""a	b""] : packetx,
-        [
-            255, ""x y"", """ ++ [28040; 24687]%N ++ runes_of_ascii """, 10, ""it's"",
-            4294967296, """"
-        ] : falsey,
-    },
-    rootA {
-        repeat charz {
-            // " ++ [128512]%N ++ runes_of_ascii " emoji
-            match x as a1 {
-                10 : metadata,
-                [
-                    ""{,}"", 00, ""a	b"", 007, ""abc"",
-                    ""// no comment""
-                ] : int,
-                3 : tag,
-                255 : x,
-                ""{,}"" : Z9_,
-            },
-        },
-        //
-        body {
-            repeat roots {
-                f32 i8i8 @calculatedFrom(""a\\"") `line1
-                                line2`,
-            },
-            i8 leftPad `doc`,
-        },
-        o @calculatedFrom(""" ++ [28040; 24687]%N ++ runes_of_ascii """) `" ++ [28040; 24687; 31867; 22411]%N ++ runes_of_ascii "`,
-    },
-    match calculatedFrom as chars {
-        // " ++ [27880; 37322]%N ++ runes_of_ascii "
-        10 : i64_,
-    },
-    @lengthOf(i8i8)
-    @tag(3)
-    match Logon as o {
-        [
-            """", 42, ""it's"", """ ++ [28040; 24687]%N ++ runes_of_ascii """, """",
-            """ ++ [28040; 24687]%N ++ runes_of_ascii """
-        ] : tag,
-    },// `tick` ""quote"" 'q'
-    zchar[0123456789] rootA @calculatedFrom(""abc""),
-    zchar[4294967296] Z9_,
-    zchar[65535] Header @lengthOf(trueish),
-    @tag(0123456789)
-    repeat trueish {
-        float {
-            repeat char[10] metadata,
-            f32 float,
-            As @calculatedFrom(""" ++ [233]%N ++ runes_of_ascii "t" ++ [233]%N ++ runes_of_ascii """),
-            tag @calculatedFrom(""CRC32"") `line1
-                        line2`,
-        },
-    },
-}
-
-packet packetx {
-    char[] options1,
-    //
-    //x
-    @calculatedFrom(""" ++ [28040; 24687]%N ++ runes_of_ascii """)
-    @tag(1)
-    match lengthOf as calculatedFrom {
-        ""packet"" : uint8x,
-        /// triple
-        [""" ++ [128512]%N ++ runes_of_ascii """] : trueish,
-        [""CRC32"", 3] : uint8x,
-        [""\n"", ""{,}""] : metadata,
-    },
-    @tag(00)
-    match Foo as falsey {
-        0 : pack,
-    },
-    @calculatedFrom(""{,}"")
-    repeat Logon `" ++ [233]%N ++ runes_of_ascii "`,
-    @lengthOf(stringy)
-    A @lengthOf(pack),
-    @tag(00)
-    match u8x as Packet {
-        65535 : _x,
-    },
-    // a // b
-    @rightPad()
-    leftPad @calculatedFrom("""") `
-        `,
-    @calculatedFrom("""")
-    @tag(4294967296)
-    @tag(7)
-    zchar[10] asx `tab	here`,
-    @lengthOf(options1)
-    //
-    f32 packetx,
-    // trailing space 
-    calculatedFrom {
-        zchar[0] Packet,
-    },// @lengthOf(
-}
-
-MetaData u128 {
-}
-
-packet o {
-    @lengthOf(lengthOf)
-    tag body `line1
-        line2`,
-    packetx,
-    repeat uint32 chars,
-    match pack as u128 {
-        ""it's"" : a1,
-        [""x y"", ""it's""] : packetx,
-    },
-    @leftPad()
-    @calculatedFrom(""packet"")
-    //
-    @calculatedFrom(""1"")
-    match i8i8 as Pad {
-        [1, 4294967296, ""\n""] : T,
-    },
-    tag Foo,
-    A {
-        repeat pack,// `tick` ""quote"" 'q'
-        repeat T {
-            string asx @calculatedFrom(""// no comment"") `
-                        `,
-            char[] x @lengthOf(trueish),
-            zchar[007] body @lengthOf(A) `two words`,
-        },
-        repeat uint8x {
-            match leftPad as A {
-                [""\" ++ [233]%N ++ runes_of_ascii """] : metadata,
-            },
-            repeat MetaDataX int `u8 x,`,
-            match rootA as Foo {
-                ""x y"" : Logon,
-            },
-            match MetaDataX as metadata {
-                4294967296 : _x,
-                [
-                    ""{,}"", """", ""1"", 4294967296, ""\" ++ [233]%N ++ runes_of_ascii """,
-                    ""abc""
-                ] : roots,
-                [""{,}"", """ ++ [128512]%N ++ runes_of_ascii """] : Z9_,
-                ""a	b"" : trueish,
-                ""\" ++ [233]%N ++ runes_of_ascii """ : int,
-                [0, 1] : i64_,
-            },
-        },
-    },
-    repeat chars u8x,
-    Logon int `u8 x,`,
-    repeat packetx `a\`,
-}")).
-Eval vm_compute in ("<<<M87>>>" ++ check (runes_of_ascii "packet Logon{
-    repeat string
-a1 `crlf
-line` ,@lengthOf(
-Pad
-    ) match  Pad as
-u8x
-    { 4294967296
-//
-// " ++ [128512]%N ++ runes_of_ascii " emoji
-: // `tick` ""quote"" 'q'
-i8i8 , } ,
-asx a1 ,
-// a // b
-// @lengthOf(
-@lengthOf(body ) //x
-msg_type int
-,tag`line1
-line2` , repeat
-// packet A { u8 x, }
-// packet A { u8 x, }
-Z9_{ u16
-    packetx	@calculatedFrom(
-    ""it's"" ) , } , @lengthOf(
-// " ++ [128512]%N ++ runes_of_ascii " emoji
-//	t
-Logon ) // " ++ [128512]%N ++ runes_of_ascii " emoji
-@rightPad (
-)	@calculatedFrom(""" ++ [233]%N ++ runes_of_ascii "t" ++ [233]%N ++ runes_of_ascii """ ) repeat roots	u128 // `tick` ""quote"" 'q'
-,@calculatedFrom( ""{,}"") chars{ match // " ++ [128512]%N ++ runes_of_ascii " emoji
-roots as Foo {
-    10 :trueish
-// trailing space 
-// @lengthOf(
-, },} , i8i8 ,@calculatedFrom( ""x y"" ) @calculatedFrom( ""a\""b"" ) repeat Z9_
-{  f32a msg_type ,
-repeat o{
-// " ++ [128512]%N ++ runes_of_ascii " emoji
-// @lengthOf(
-zchar[ 0	]
-charz @calculatedFrom(""CRC32"" ) ,
-}
-,}
-    ,
-} root
-    packet	BodyLength
-{ calculatedFrom
+Eval vm_compute in ("<<<M1572>>>" ++ check (runes_of_ascii "// top
+options // c0a
+  // c0b
+{ // c1
+ArrayPrefixLenType // c2a
+  // c2b
+= u16 // c4a
+  // c4b
+; // c5a
+  // c5b
+FixedStringPadFromLeft
+    // c6
+= true ; // c9
+JavaPackage // c10a
+  // c10b
+= ""com.example.msg"" // c12
+; // c13
+GoPackage
+    // c14
+= ""msg""
+    // c16
+; GoModule
+    // c18
+= ""example.com/msg"" ; } MetaData Meta // c24
 {
-char[]x@calculatedFrom(
-""\n""
-)
-    , // @lengthOf(
-_x @calculatedFrom( ""`tick`""
-    ),	repeat u128,float Packet
-`" ++ [28040; 24687; 31867; 22411]%N ++ runes_of_ascii "`
-    ,}
-    , repeat Foo	{ uint64 a1
-    // `tick` ""quote"" 'q'
-    , } , /// triple
-repeat char[ 42 ] matchKey `it's` ,	lengthOf{ // " ++ [27880; 37322]%N ++ runes_of_ascii "
-u128 trueish  `// not a comment`, match
-chars as MetaDataX {
-00
-    : x_y_z 1
-: trueish, [ 0123456789 ]
-    :	calculatedFrom , [
-    ""CRC32"" ,	""\" ++ [233]%N ++ runes_of_ascii """
-, ""// no comment""
-    , ""it's"" ,	""packet""
-    , 007 ] : Pad
+    // c25
+u32 SeqNum `sequence number` ,
+    // c29
+char[ 8 // c31
+]
+    // c32
+Symbol // c33a
+  // c33b
+`symbol`
+    // c34
 ,
-} ,  } /// triple
-, repeat char[] Logon // `tick` ""quote"" 'q'
-, @leftPad
-    ( '0' //x
-) f32
-    Pad
-    @calculatedFrom(""CRC32"" ) , @lengthOf(
-BodyLength )  options1 @calculatedFrom( ""`tick`"") , A {
-// " ++ [27880; 37322]%N ++ runes_of_ascii "
-//	t
-uint8 charz`u8 x,`
-, falsey x
-`line1
-line2`  , repeat
-    int8 Packet
-    ,zchar[ 1 ] float
-    , }
-, char[ 65535 ] matchKey
-@calculatedFrom( //
-""x y""
-    ) // trailing space 
-, @lengthOf( o//x
-)match	chars
-    as As {	1
-    : f32a
+    // c35
+zchar[ // c36a
+  // c36b
+5 // c37a
+  // c37b
+] ZSym // c39
+`z symbol`
+    // c40
+, // c41a
+  // c41b
+string
+    // c42
+Note , // c44
+Symbol
+    // c45
+AltSymbol // c46a
+  // c46b
+`alias of symbol`
+    // c47
 ,
-} , }
+    // c48
+f64 // c49
+Price // c50a
+  // c50b
+,
+    // c51
+} // c52a
+  // c52b
+packet // c53a
+  // c53b
+Inner // c54
+{
+    // c55
+u8
+    // c56
+a // c57a
+  // c57b
+, // c58a
+  // c58b
+i16
+    // c59
+b // c60
+, // c61a
+  // c61b
+string // c62
+c , // c64a
+  // c64b
+}
+    // c65
+packet Inner2 // c67a
+  // c67b
+{ // c68a
+  // c68b
+u8 a2
+    // c70
+, // c71a
+  // c71b
+char[ 3 ] // c74
+c2 ,
+    // c76
+} packet Logon // c79
+{
+    // c80
+u8 // c81
+x
+    // c82
+,
+    // c83
+string
+    // c84
+user , repeat u16 // c88a
+  // c88b
+codes , // c90
+}
+    // c91
+packet // c92
+Logout // c93a
+  // c93b
+{ // c94
+u16 // c95a
+  // c95b
+reason
+    // c96
+, // c97
+} // c98
 packet
-//	t
-// packet A { u8 x, }
-int
-{ @calculatedFrom( // trailing space 
-""// no comment"" ) @rightPad ( ) @calculatedFrom( """ ++ [233]%N ++ runes_of_ascii "t" ++ [233]%N ++ runes_of_ascii """ ) roots _x
-/// triple
-// trailing space 
-`say ""hi""`	, // `tick` ""quote"" 'q'
-} options { o= ""{,}"" Pad =
-    255 ;  } // " ++ [27880; 37322]%N)).
+    // c99
+Empty { // c101a
+  // c101b
+}
+    // c102
+root // c103a
+  // c103b
+packet // c104a
+  // c104b
+Msg
+    // c105
+{ // c106a
+  // c106b
+u8
+    // c107
+su8 // c108
+, uint8
+    // c110
+luint8
+    // c111
+, // c112
+u16
+    // c113
+su16 // c114
+, // c115a
+  // c115b
+uint16 // c116
+luint16 , // c118
+u32 // c119a
+  // c119b
+su32
+    // c120
+, // c121
+uint32
+    // c122
+luint32 // c123a
+  // c123b
+, // c124
+u64 su64 // c126a
+  // c126b
+, uint64 luint64 ,
+    // c130
+i8
+    // c131
+si8 // c132
+, // c133
+int8
+    // c134
+lint8 // c135a
+  // c135b
+, // c136a
+  // c136b
+i16
+    // c137
+si16 // c138
+, // c139a
+  // c139b
+int16 // c140a
+  // c140b
+lint16
+    // c141
+, // c142a
+  // c142b
+i32 // c143a
+  // c143b
+si32 // c144a
+  // c144b
+,
+    // c145
+int32
+    // c146
+lint32 ,
+    // c148
+i64 // c149a
+  // c149b
+si64 // c150a
+  // c150b
+, // c151a
+  // c151b
+int64 lint64 // c153
+,
+    // c154
+f32
+    // c155
+sf32 // c156a
+  // c156b
+, // c157a
+  // c157b
+float32 lfloat32 // c159a
+  // c159b
+,
+    // c160
+f64
+    // c161
+sf64
+    // c162
+,
+    // c163
+float64 lfloat64
+    // c165
+, // c166
+char[
+    // c167
+6 // c168a
+  // c168b
+]
+    // c169
+fsplain
+    // c170
+, // c171
+@leftPad // c172
+( '0' // c174a
+  // c174b
+) char[ 4 ] fs0 // c179
+, // c180a
+  // c180b
+@rightPad
+    // c181
+( '0' // c183a
+  // c183b
+) // c184a
+  // c184b
+char[ 5 // c186
+] // c187a
+  // c187b
+fs1 , // c189a
+  // c189b
+@leftPad
+    // c190
+( // c191
+' '
+    // c192
+) // c193
+char[ // c194
+6 // c195
+] // c196a
+  // c196b
+fs2 // c197
+,
+    // c198
+@rightPad // c199
+(
+    // c200
+' '
+    // c201
+) // c202
+char[
+    // c203
+7 // c204a
+  // c204b
+] fs3 // c206
+, // c207
+@leftPad // c208a
+  // c208b
+( '\x00' // c210a
+  // c210b
+) char[ 8
+    // c213
+] // c214
+fs4 , @rightPad (
+    // c218
+'\x00' // c219
+)
+    // c220
+char[ // c221
+9 // c222a
+  // c222b
+]
+    // c223
+fs5 // c224a
+  // c224b
+, // c225
+@leftPad // c226a
+  // c226b
+(
+    // c227
+) // c228
+char[
+    // c229
+10
+    // c230
+] // c231
+fs6 // c232a
+  // c232b
+, @rightPad // c234a
+  // c234b
+( // c235a
+  // c235b
+) // c236
+char[ 11 // c238a
+  // c238b
+] // c239
+fs7 , // c241a
+  // c241b
+zchar[ 7 // c243
+] fz // c245
+,
+    // c246
+@leftPad
+    // c247
+(
+    // c248
+'0' // c249
+)
+    // c250
+zchar[ // c251a
+  // c251b
+3 // c252a
+  // c252b
+] // c253
+fzl0 // c254a
+  // c254b
+, // c255
+string // c256
+s1
+    // c257
+`doc` // c258a
+  // c258b
+, // c259a
+  // c259b
+char[]
+    // c260
+s2 // c261
+, // c262
+Inner
+    // c263
+, Sub { // c266a
+  // c266b
+u8
+    // c267
+q // c268
+, string w // c271a
+  // c271b
+,
+    // c272
+Deep // c273a
+  // c273b
+{ u16 // c275
+z // c276a
+  // c276b
+, // c277
+repeat i32 // c279a
+  // c279b
+zs // c280a
+  // c280b
+,
+    // c281
+}
+    // c282
+,
+    // c283
+}
+    // c284
+, repeat // c286
+u8 ru8 , // c289
+repeat u16 // c291
+ru16 // c292
+, // c293a
+  // c293b
+repeat
+    // c294
+u32 ru32 // c296a
+  // c296b
+, // c297
+repeat // c298a
+  // c298b
+u64
+    // c299
+ru64 , repeat
+    // c302
+i8
+    // c303
+ri8 // c304a
+  // c304b
+, repeat // c306
+i16 // c307a
+  // c307b
+ri16
+    // c308
+, repeat i32 // c311a
+  // c311b
+ri32 // c312a
+  // c312b
+,
+    // c313
+repeat
+    // c314
+i64 ri64 // c316
+,
+    // c317
+repeat // c318
+f32 rf32 ,
+    // c321
+repeat // c322
+f64 // c323
+rf64
+    // c324
+,
+    // c325
+repeat // c326a
+  // c326b
+string // c327
+rstr ,
+    // c329
+repeat
+    // c330
+char[] // c331
+rstr2 // c332
+, // c333a
+  // c333b
+repeat char[ // c335a
+  // c335b
+3 // c336a
+  // c336b
+] // c337a
+  // c337b
+rfs , // c339
+repeat zchar[
+    // c341
+3 // c342a
+  // c342b
+] // c343
+rfz , repeat // c346
+Inner2 , // c348
+repeat Grp
+    // c350
+{ u8
+    // c352
+k // c353a
+  // c353b
+,
+    // c354
+char[ // c355
+2
+    // c356
+]
+    // c357
+v // c358
+,
+    // c359
+}
+    // c360
+, // c361a
+  // c361b
+SeqNum ,
+    // c363
+SeqNum seq2 // c365a
+  // c365b
+, repeat SeqNum // c368a
+  // c368b
+seqs // c369a
+  // c369b
+, // c370
+Symbol // c371
+, // c372a
+  // c372b
+AltSymbol alt , // c375
+ZSym
+    // c376
+,
+    // c377
+Note
+    // c378
+, // c379a
+  // c379b
+repeat // c380a
+  // c380b
+Symbol // c381a
+  // c381b
+syms
+    // c382
+, // c383a
+  // c383b
+Price px
+    // c385
+,
+    // c386
+u16 MsgType , u32
+    // c390
+BodyLen // c391
+@lengthOf( Body // c393a
+  // c393b
+) // c394a
+  // c394b
+,
+    // c395
+match MsgType // c397
+as Body
+    // c399
+{
+    // c400
+1 // c401a
+  // c401b
+:
+    // c402
+Logon
+    // c403
+, // c404a
+  // c404b
+[ // c405a
+  // c405b
+2 // c406
+, 3 // c408a
+  // c408b
+] // c409
+:
+    // c410
+Logout , // c412
+7 : // c414
+Logon
+    // c415
+, // c416
+9
+    // c417
+: // c418
+Empty , // c420
+} // c421a
+  // c421b
+,
+    // c422
+u32 Checksum // c424
+@calculatedFrom( // c425
+""CRC32"" // c426a
+  // c426b
+) // c427
+, // c428a
+  // c428b
+}
+    // c429
+")).
 Eval vm_compute in ("<<<M239>>>" ++ check (runes_of_ascii "packet
 //
 // " ++ [128512]%N ++ runes_of_ascii " emoji
@@ -365,2420 +650,1069 @@ string
 //
 roots`say ""hi""` ,}
 ")).
-Eval vm_compute in ("<<<M3682>>>" ++ check (runes_of_ascii "MetaData msg_type {
-    trueish i8i8,
-    float32 msg_type,
-    options1 BodyLength `two words`,
-    u128 body `u8 x,`,
-}// trailing space 
-
-packet Logon {
-    repeat i32 metadata `
-        `,
-    @calculatedFrom(""x y"")
-    // c
-    i64_,
-    i64 int @lengthOf(pack),
-    char[] charz,
-    // @lengthOf(
-    match _x as pack {
-        3 : body,
-        [""// no comment"", ""a\""b""] : uint8x,
-        3 : lengthOf,
-    },
-    matchKey,
-    roots {
-        _x @lengthOf(Pad),
-        repeat a1 _x,
-    },
-    string T,
-    @lengthOf(Pad)
-    match f32a as u {
-        // a // b
-        [
-            10, """ ++ [233]%N ++ runes_of_ascii "t" ++ [233]%N ++ runes_of_ascii """, ""`tick`"", 255, 0123456789,
-            ""1"", ""a	b"", 3
-        ] : options1,
-    },
-}
-
-MetaData u128 {
-    char[10] tag,
-    pack stringy,
-    char pack,
-}
-
-root packet Header {
-    match Foo as Logon {
-        [""" ++ [233]%N ++ runes_of_ascii "t" ++ [233]%N ++ runes_of_ascii """, ""CRC32""] : falsey,
-        [""" ++ [233]%N ++ runes_of_ascii "t" ++ [233]%N ++ runes_of_ascii """, """"] : u128,
-        [
-            00, ""a\""b"", 7, ""it's"", """ ++ [28040; 24687]%N ++ runes_of_ascii """,
-            00, 255, 00
-        ] : asx,
-        ""// no comment"" : charz,
-        ""1"" : Packet,
-        [""// no comment"", 1] : zchar,
-    },
-    @lengthOf(u8x)
-    @tag(007)
-    @lengthOf(pack)
-    u8 _x `doc`,
-    zchar[0123456789] Packet @lengthOf(o),
-    match chars as msg_type {
-        ""\n"" : lengthOf,
-        0123456789 : a1,
-        [4294967296] : stringy,
-        [""`tick`"", ""`tick`"", 0] : falsey,
-        [
-            007, 65535, 65535, 10, ""abc"",
-            3
-        ] : body,
-    },
-    zchar[10] Logon,
-}
-
-packet Packet {
-}// " ++ [27880; 37322]%N)).
-Eval vm_compute in ("<<<M4164>>>" ++ check (runes_of_ascii "  packet float {@leftPad
-    (	// packet A { u8 x, }
-    '\x00'
-
-) i64_{string  Z9_ , } , 
-@tag(//x
-0  )
-
-    char[] 
-u8x
-
-@calculatedFrom( 
-""a	b""
-)
-    , @lengthOf(	u128
-    ) int8
-    u
-`two words`
-
-    ,u64
-
-    Foo `a\`  //x
-  ,@leftPad// packet A { u8 x, }
-      ( '0'  )
-
-    repeat 
-
-    //x
-
-	// " ++ [128512]%N ++ runes_of_ascii " emoji
-    	repeatCount  //x
-
-	{ 
-repeat  Pad
-{repeat
-
-    tag { char[ 
-00] //	t
-	  Logon  `it's`  ,
-    string_ , }
-,
-
-    match// " ++ [128512]%N ++ runes_of_ascii " emoji
-
-As // c
-as
-
-matchKey
-    {  7 :  lengthOf
-}
-    ,
-match
-
-u128
-
-    as tag
-
-    {[
-	7  ] 
-: 	 // " ++ [128512]%N ++ runes_of_ascii " emoji
-  Packet 
-    //	t
-  ,""" ++ [28040; 24687]%N ++ runes_of_ascii """
-    :Foo
-
-, 
-65535  // " ++ [128512]%N ++ runes_of_ascii " emoji
-	:
-	calculatedFrom
-//x
-	//x
-		} /// triple
-	, // a // b
-} , // " ++ [128512]%N ++ runes_of_ascii " emoji
-	f32
-	options1 `doc`	// c
-
-,// trailing space 
-  	}
-
-    , @leftPad  (
-
-    '0'
-) match 
-rootA// packet A { u8 x, }
-  as
-    i64_ 
-{
-3
-    // " ++ [128512]%N ++ runes_of_ascii " emoji
-
-//
-  : msg_type
-	,  ""abc"":
-    rootA ,
-        //	t
-	[
-""CRC32"" 
-] :
-	float 
-, 10:  pack
-	, 
-""" ++ [128512]%N ++ runes_of_ascii """ :
-	tag},@rightPad (
-        // trailing space 
-'\x00'	)char[
-	65535  ]_x  @calculatedFrom( """ ++ [128512]%N ++ runes_of_ascii """
-	)
-
-    ,char[ 4294967296]
-lengthOf
-@calculatedFrom(
-""// no comment""
-	) , @leftPad(' ' 
-)	zchar[
-007 
-]options1
-,  /// triple
-
-	} packet
-
-// " ++ [27880; 37322]%N ++ runes_of_ascii "
-
-  rootA 
-{
-    }
-	packet 
-charz {repeat
-
-As``
-	,
-}	packet f32a
-	{ }
-    MetaData
-	roots
-
-    {body	matchKey`// not a comment`
-,
-}
-")).
-Eval vm_compute in ("<<<M3938>>>" ++ check (runes_of_ascii "MetaData asx {
-    char[] Z9_ `doc`,
-}
-
-packet roots {
-    a1 @lengthOf(string_),
-    char[0123456789] Logon `
-    `,// " ++ [128512]%N ++ runes_of_ascii " emoji
-    @calculatedFrom(""`tick`"")
-    i64 u128,
-    i32 matchKey `doc`,
-    match asx as pack {
-        /// triple
-        [0] : x_y_z,
-        0123456789 : float,
-        00 : packetx,
-        65535 : crc,
-        4294967296 : a1,
-    },
-    falsey float,
-    @calculatedFrom(""CRC32"")
-    // " ++ [128512]%N ++ runes_of_ascii " emoji
-    @lengthOf(body)
-    @lengthOf(MetaDataX)
-    // @lengthOf(
-    leftPad @calculatedFrom(""" ++ [28040; 24687]%N ++ runes_of_ascii """) `// not a comment`,
-    uint8 packetx @calculatedFrom(""a	b""),
-}
-
-packet Logon {
-}
-
-packet zchar {
-    /// triple
-    Z9_ {
-        repeat i8 Foo,
-        f64 falsey `tab	here`,
-        match msg_type as As {
-            255 : roots,
-            [4294967296, 7, ""`tick`"", 65535] : metadata,
-            """ ++ [233]%N ++ runes_of_ascii "t" ++ [233]%N ++ runes_of_ascii """ : x_y_z,
-            ""`tick`"" : x_y_z,
-            [
-                42, ""CRC32"", ""// no comment"", 0123456789, ""// no comment"",
-                ""CRC32"", """ ++ [128512]%N ++ runes_of_ascii """, ""{,}""
-            ] : packetx,
-        },
-        o @lengthOf(msg_type) `it's`,
-    },
-    @calculatedFrom(""" ++ [28040; 24687]%N ++ runes_of_ascii """)
-    uint64 x `crlf
-    line`,
-    zchar[7] Logon,
-    repeat rootA matchKey `crlf
-    line`,
-}// " ++ [27880; 37322]%N)).
-Eval vm_compute in ("<<<M133>>>" ++ check (runes_of_ascii "root packet x_y_z { match Z9_ as  u{ 255:pack , 255 : u128
-, 007 : float ""\n"" :options1 , [	""" ++ [28040; 24687]%N ++ runes_of_ascii """ , 1 ]
-: Z9_""" ++ [28040; 24687]%N ++ runes_of_ascii """:	chars
-, }, u8 _x @calculatedFrom(
-    // a // b
-    """ ++ [28040; 24687]%N ++ runes_of_ascii """ )`say ""hi""` ,@tag( 3 ) match a1 as msg_type { [ ""\n"" // a // b
-, 255//x
-, 0 ] :crc	,} , }
-root packet o
-{  match tag as _x
-    { 007 :
-    x ,	10 :charz,
-""{,}""
-:body	,""" ++ [233]%N ++ runes_of_ascii "t" ++ [233]%N ++ runes_of_ascii """ : len
-""" ++ [128512]%N ++ runes_of_ascii """
-    :
-    u , }
-    ,
-    u64 u @calculatedFrom( ""x y""
-// c
-// " ++ [27880; 37322]%N ++ runes_of_ascii "
-)
-`it's`, @lengthOf( trueish ) repeat // packet A { u8 x, }
-uint8 u8x
-`" ++ [28040; 24687; 31867; 22411]%N ++ runes_of_ascii "` // a // b
-, @calculatedFrom(	""\n"" )
-    @rightPad() @leftPad (
-    '\x00')
-    repeat uint32 float, @lengthOf(	A )
-    @tag(//	t
-0123456789 ) @rightPad ( ' '
-    ) zchar[ 10	]
-    // " ++ [128512]%N ++ runes_of_ascii " emoji
-    o// packet A { u8 x, }
-,
-    uint8x
-    @calculatedFrom( ""a\\"" // " ++ [27880; 37322]%N ++ runes_of_ascii "
-) `
-`
-,body
-, repeat //	t
-char[10 ]
-    string_ `tab	here`
-    , } root packet
-    roots {  } packet u {@calculatedFrom(	""" ++ [128512]%N ++ runes_of_ascii """ )	f64 Logon// `tick` ""quote"" 'q'
-@calculatedFrom( ""1""
-)
-    `a\` ,  int16 trueish `line1
-line2`
-,//
-zchar[  0123456789 ]
-    // a // b
-    BodyLength `two words`, float32 i8i8 @lengthOf( metadata ) `// not a comment`
-, i32 leftPad,	}
-
-")).
-Eval vm_compute in ("<<<M3593>>>" ++ check (runes_of_ascii "// top
-packet // c0
-A // c1a
-  // c1b
-{
-    // c2
-u8
-    // c3
-a // c4a
+Eval vm_compute in ("<<<M1561>>>" ++ check (runes_of_ascii "// top
+options // c0
+{ LittleEndian = // c3
+false // c4a
   // c4b
-, } packet // c7a
-  // c7b
-B // c8a
-  // c8b
-{ // c9a
+; // c5a
+  // c5b
+ArrayPrefixLenType // c6a
+  // c6b
+= // c7
+u64 // c8
+; // c9a
   // c9b
-u16
-    // c10
-b
-    // c11
-, // c12a
-  // c12b
-} packet
-    // c14
-C // c15a
+FixedStringPadChar = // c11
+'0' ; } packet // c15a
   // c15b
-{ // c16
-u32 c
-    // c18
-, // c19a
-  // c19b
+Quote { // c17a
+  // c17b
+repeat InFlags37
+    // c19
+{ char[]
+    // c21
+lastPx , // c23
 }
-    // c20
-root // c21
-packet // c22a
-  // c22b
-M
-    // c23
-{ // c24a
-  // c24b
-u16 // c25
-Kc // c26
+    // c24
 ,
+    // c25
+i16
+    // c26
+tag7
     // c27
-u16
-    // c28
-Kb // c29
-, // c30a
-  // c30b
-u16
-    // c31
-Ka
+, char[] f1 // c30
+, zchar[
     // c32
-,
-    // c33
-match // c34
-Kc as
-    // c36
-X // c37
-{
+6 // c33a
+  // c33b
+] // c34
+Note , } // c37a
+  // c37b
+packet
     // c38
-9 // c39
-:
-    // c40
-A
-    // c41
-, 10 // c43
-: // c44a
+Order // c39a
+  // c39b
+{ u8 // c41
+Ref // c42a
+  // c42b
+,
+    // c43
+repeat // c44a
   // c44b
-B // c45a
-  // c45b
-, // c46a
-  // c46b
+Quote
+    // c45
+,
+    // c46
+repeat string // c48
+Acct // c49
+, // c50
+}
+    // c51
+root
+    // c52
+packet // c53
+Heartbeat
+    // c54
+{ // c55
+repeat // c56a
+  // c56b
+Quote // c57
+, @leftPad ( // c60
+'0'
+    // c61
+) // c62a
+  // c62b
+char[ 11 // c64
+] // c65
+OrderId // c66
+, // c67
+zchar[
+    // c68
+8 // c69a
+  // c69b
+] // c70a
+  // c70b
+Ref // c71
+, // c72
+u32 // c73
+Flags
+    // c74
+, // c75
+u32 // c76
+Tail // c77
+@lengthOf( Body // c79
+)
+    // c80
+, match
+    // c82
+Flags
+    // c83
+as // c84
+Body {
+    // c86
+156 // c87
+:
+    // c88
+Order // c89a
+  // c89b
+, 7 // c91
+: Quote
+    // c93
+, // c94a
+  // c94b
+} ,
+    // c96
+}
+    // c97
+")).
+Eval vm_compute in ("<<<M252>>>" ++ check (runes_of_ascii "packet u  { Header {
+float64	Foo@lengthOf( Pad
+    ) `{ , }`,	leftPad @calculatedFrom(""a	b"" )
+    ,msg_type {
+Z9_	@lengthOf(
+    u8x ) ,
+    falsey , len @lengthOf( float // " ++ [27880; 37322]%N ++ runes_of_ascii "
+) `it's`
+    , repeat int64
+options1	`a\` , } , // trailing space 
+} ,
+//	t
+// " ++ [128512]%N ++ runes_of_ascii " emoji
+falsey// `tick` ""quote"" 'q'
+u8x , zchar[  1 ]
+x `` ,
+    @lengthOf( uint8x
+) crc
+    @lengthOf(matchKey )  , repeat f32 string_
+// `tick` ""quote"" 'q'
+//
+,packetx,
+    // " ++ [27880; 37322]%N ++ runes_of_ascii "
+    u8x
+    { f64
+Header , repeat uint8 uint8x , x_y_z
+{  match string_
+// " ++ [27880; 37322]%N ++ runes_of_ascii "
+//	t
+as a1 { [// `tick` ""quote"" 'q'
+255
+]  : f32a// @lengthOf(
+, [
+""packet""  ,""1"" , 00 ,
+    """ ++ [128512]%N ++ runes_of_ascii """,  4294967296 , 4294967296]:Logon , } , pack @lengthOf( options1 ), zchar[  1 ] crc ``,}	, } , rootA zchar ,}
+options { uint8x
+= 4294967296
+// " ++ [27880; 37322]%N ++ runes_of_ascii "
+// @lengthOf(
+tag // `tick` ""quote"" 'q'
+=
+float32 ; o = true ; // trailing space 
+rootA =
+    // @lengthOf(
+    ""packet"" ; } //x
+packet float
+    {
+    } // " ++ [27880; 37322]%N ++ runes_of_ascii "
+options	{ // " ++ [27880; 37322]%N ++ runes_of_ascii "
+msg_type// c
+= i16 ;
+    trueish = zchar[ 1 ] ; Logon =
+    ""abc"" rootA = i16 ; } MetaData rootA
+{
+}
+")).
+Eval vm_compute in ("<<<M1565>>>" ++ check (runes_of_ascii "
+options  { 
+LittleEndian=  false ;
+FixedStringPadFromLeft
+=  false ; FixedStringPadChar= ' '
+; }	packet
+
+    Fill
+
+{ uint16 Qty
+	,  uint64 
+clOrdID,repeat 
+i64 Flags ,
+
+} 
+packet 
+Ack	{
+	zchar[
+7
+] clOrdID ,	u64
+
+    lastPx
+,
+
+    char[]	Note
+,
+repeat Fill
+,
+    int32
+count 
+,
+}
+packet Quote
+	{	u8
+venue
+
+    ,
+	InRef40 { 
+char[]
+    Qty
+,
+}
+,zchar[
+
+    5
+]
+Flags
+    ,
+    @rightPad ('\x00')
+    char[  12	]msgKind
+
+, }
+
+packet
+    Logout
+	{
+InSym79
+	{  int32
+
+    Qty , Fill ,
+
+char[3
+
+]x
+    ,
+
+repeat  InNote29
+
+{
+
+    i16 price ,
+	Ack
+    , 
+f64
+	x
+,
+
+zchar[
+8	]
+count
+,}
+,
+    } ,
+} 
+root
+
+    packet
+    Logon { zchar[	1 ]
+	sym
+,  u32 count,
+
+u16
+	tag7 
+@lengthOf(
+
+Body
+    ) 
+,match 
+count
+
+    as  Body{  [
+    122 
+,
+152	]:
+
+Ack
+,  118  : Logout
+,
+61
+    : Quote , 
+161
+: 
+Fill
+    ,
+    }
+,
+u32
+Acct 
+@calculatedFrom( 
+""CRC32"" ),
+}
+")).
+Eval vm_compute in ("<<<M303>>>" ++ check (runes_of_ascii "root packet tag
+    //x
+    { @tag(
+// trailing space 
+//x
+4294967296) zchar[ 255
+    ]
+    Foo	@calculatedFrom( ""\" ++ [233]%N ++ runes_of_ascii """  )// trailing space 
+, @lengthOf( // packet A { u8 x, }
+packetx
+) @tag( 1) @lengthOf( string_ ) // a // b
+zchar[
+255] u	, Z9_ {repeat stringy  {repeat
+body , }
+    ,
+    // `tick` ""quote"" 'q'
+    } ,
+    //
+    repeat uint8  a1 , i64// c
+tag  ,
+    // " ++ [128512]%N ++ runes_of_ascii " emoji
+    }
+    packet uint8x { // a // b
+@lengthOf( BodyLength	) @lengthOf( int )
+    //
+    uint64 As `{ , }` ,
+    char[
+65535	] zchar
+// " ++ [27880; 37322]%N ++ runes_of_ascii "
+// trailing space 
+@lengthOf(
+    stringy ) `tab	here` ,rootA @calculatedFrom( // a // b
+""x y"" ) , repeat options1	{ i8i8 calculatedFrom,
+// " ++ [27880; 37322]%N ++ runes_of_ascii "
+// `tick` ""quote"" 'q'
+}, repeat char[ 0]
+    MetaDataX ,} //")).
+Eval vm_compute in ("<<<M1507>>>" ++ check (runes_of_ascii "// top
+options
+    // c0
+{ // c1a
+  // c1b
+FixedStringPadChar // c2a
+  // c2b
+= // c3a
+  // c3b
+'0' // c4
+; // c5
+} // c6
+packet // c7
+Q
+    // c8
+{ // c9
+zchar[
+    // c10
+4 // c11a
+  // c11b
+] // c12
+z
+    // c13
+,
+    // c14
+@rightPad // c15
+( // c16a
+  // c16b
+'\x00' // c17a
+  // c17b
+) // c18
+char[ 3 // c20
+] // c21a
+  // c21b
+n
+    // c22
+, char[ // c24
+5 ]
+    // c26
+d // c27
+,
+    // c28
+} root // c30
+packet R // c32
+{ // c33
+Q
+    // c34
+, // c35
+zchar[ // c36
+8 // c37a
+  // c37b
+]
+    // c38
+top // c39a
+  // c39b
+, repeat // c41a
+  // c41b
+zchar[ // c42
+2 // c43a
+  // c43b
+] // c44
+zs // c45
+, // c46
 }
     // c47
-, // c48a
-  // c48b
-match Kb // c50
-as Y // c52a
-  // c52b
-{ 2
-    // c54
-: // c55
-C
-    // c56
-, // c57
-1 : A // c60
-, // c61
-} // c62a
-  // c62b
-, match // c64a
-  // c64b
-Ka as
-    // c66
-Z
-    // c67
-{ // c68a
-  // c68b
-1 // c69a
-  // c69b
-: // c70a
-  // c70b
-B
-    // c71
-,
-    // c72
-} , // c74a
-  // c74b
-A // c75
-, // c76
-B , // c78a
-  // c78b
-C // c79a
-  // c79b
-, // c80a
-  // c80b
-} // c81
 ")).
-Eval vm_compute in ("<<<M253>>>" ++ check (runes_of_ascii "options{
-} packet matchKey { repeat
-int32 packetx, zchar[
-    10
-    //x
-    ] Packet
-    ,@lengthOf(string_
-) @tag( 007 ) @tag( 255 )// @lengthOf(
-Z9_ @calculatedFrom( """ ++ [28040; 24687]%N ++ runes_of_ascii """ ) ,
-@lengthOf(
-// `tick` ""quote"" 'q'
-// `tick` ""quote"" 'q'
-asx
-) @calculatedFrom(
-    // trailing space 
-    ""CRC32"" )
-string
-_x,
-    @calculatedFrom( """"
-    ) @lengthOf(
-trueish)x , @leftPad (
-)
-// `tick` ""quote"" 'q'
-/// triple
-zchar[ 4294967296 ]
-    float , @lengthOf(
-    // trailing space 
-    u128
-    )//	t
-Logon{repeat char[]x `u8 x,`, // packet A { u8 x, }
-} , @tag(
-1) f64 Z9_ ,
-u32 i64_
-`crlf
-line`  , @rightPad
-// `tick` ""quote"" 'q'
-// @lengthOf(
-( '\x00'	) @leftPad (	) repeat float32
-uint8x , }
-root packet
-u128
-    // `tick` ""quote"" 'q'
-    { i32
-    charz //	t
-@lengthOf( crc
-) `u8 x,`  ,// a // b
-@tag(
-65535 // " ++ [128512]%N ++ runes_of_ascii " emoji
-)// trailing space 
-@lengthOf( f32a ) repeat// " ++ [27880; 37322]%N ++ runes_of_ascii "
-Logon
-`{ , }`
-    , @rightPad (
-    ' ' ) @tag(65535
-)
-    repeat trueish , i32
-lengthOf
-    // `tick` ""quote"" 'q'
-    , }")).
-Eval vm_compute in ("<<<M4572>>>" ++ check (runes_of_ascii "root packet Pad {
-    char[00] stringy @calculatedFrom(""\" ++ [233]%N ++ runes_of_ascii """) `it's`,
-    zchar {
-        falsey Header `two words`,
-        Packet @lengthOf(int) ``,
-        charz asx,
-        u32 A,
-    },
-    string metadata,
-    repeat char[1] crc `
-        `,
-    Foo `it's`,
-}
-
-packet rootA {
-    repeat i32 matchKey,
-    repeat x_y_z `// not a comment`,
-    roots @calculatedFrom(""\n""),
-    x_y_z {
-        zchar[42] charz @lengthOf(u128),
-        leftPad `line1
-                line2`,
-    },
-    falsey crc `crlf
-        line`,
-    repeat char i64_ `a\`,
-}
-
-packet Packet {
-    repeat i64_ {
-        repeat metadata {
-            repeatCount `{ , }`,
-            int16 o,
-        },
-        //	t
-        repeat uint64 A,
-        float @calculatedFrom(""a\""b""),
-        zchar[7] T,
-    },
-    @leftPad('\x00')
-    repeatCount `a\`,
-}
-
-MetaData o {
-    // a // b
-    int repeatCount `line1
-        line2`,
-}
-
-options {
-    msg_type = 00//x
-}")).
-Eval vm_compute in ("<<<M512>>>" ++ check (runes_of_ascii "packet repeatCount{
-@lengthOf( uint8x)
-// @lengthOf(
-// c
-repeat  falsey options1 `" ++ [28040; 24687; 31867; 22411]%N ++ runes_of_ascii "`
-    // a // b
-    , @calculatedFrom(
-""a\""b"" )string A//
-,
-    @lengthOf(	metadata )  a1@calculatedFrom(
-""a\\""
-)`say ""hi""` ,  }
-packet leftPad {
-string msg_type `{ , }`,i8i8 @lengthOf( u8x // @lengthOf(
-) `// not a comment`
-, char matchKey	`" ++ [28040; 24687; 31867; 22411]%N ++ runes_of_ascii "` ,uint16
-    stringy `" ++ [233]%N ++ runes_of_ascii "` ,
-    zchar[ 0 ] uint8x  ,stringy
-@calculatedFrom(""x y""
-// `tick` ""quote"" 'q'
-// `tick` ""quote"" 'q'
-)
-    `{ , }`  ,
-match
-u	as
-MetaDataX {10:
-body,}
-    // " ++ [27880; 37322]%N ++ runes_of_ascii "
-    ,
-// `tick` ""quote"" 'q'
-// packet A { u8 x, }
-@lengthOf( T  ) @lengthOf( uint8x ) match uint8x
-//	t
-// `tick` ""quote"" 'q'
-as //x
-stringy{ ""\n"" :
-    Logon// c
-,
-42 :
-Header , [	""{,}"" ,
-    7 ]
-:As ""CRC32"":	Header
-    // c
-    , // c
-0 : leftPad ,  } ,
-}// `tick` ""quote"" 'q'
-options
-{  packetx =false  ; lengthOf
-    =
-    """ ++ [128512]%N ++ runes_of_ascii """ tag
-    = char[] ; }
-")).
-Eval vm_compute in ("<<<M4401>>>" ++ check (runes_of_ascii "
-MetaData
-
-    tag { zchar[	1 
-]
-
-repeatCount  ,Header
-rootA
-
-    ,
-
-zchar[// " ++ [128512]%N ++ runes_of_ascii " emoji
-    3 
-]
-string_ `two words` 
-,
-int8 _x, char[  
-      // " ++ [27880; 37322]%N ++ runes_of_ascii "
-  /// triple
-  0123456789]
-    zchar
-	`
-`
-	,  zchar[ 4294967296]
-// " ++ [27880; 37322]%N ++ runes_of_ascii "
-    a1
-``
-,}
-	root packet// " ++ [27880; 37322]%N ++ runes_of_ascii "
-    Pad {  @lengthOf(	As  )
-
-BodyLength	{  char[]a1 @lengthOf(Pad)
-	,
-
-char[] BodyLength `doc` // @lengthOf(
-	  , }
-
-,match	options1
-
-as
-
-packetx{ ""\n""  :
-    i8i8
-	,  [
-""CRC32"" ,
-	//	t
-  	10
-	, 	 //	t
-    ""1""
-, 
-65535
-	]
-    // @lengthOf(
-	// " ++ [27880; 37322]%N ++ runes_of_ascii "
-  :  matchKey
-00
-
-: 
-uint8x,  3
-:
-
-repeatCount,  ""\n""	:
-
-    tag 
-    // packet A { u8 x, }
-	, 	 // a // b
-    ""x y""
-	://
-		u8x
-} , @lengthOf(calculatedFrom  ) 
-msg_type
-body// " ++ [128512]%N ++ runes_of_ascii " emoji
-,	}
-options {
-
-// " ++ [27880; 37322]%N ++ runes_of_ascii "
-	  // a // b
-T 
-//x
-  	// @lengthOf(
-	= 10  ; T
-=u16
-
-;
-    }
-packet stringy  // trailing space 
-    { 
-} ")).
-Eval vm_compute in ("<<<M4040>>>" ++ check (runes_of_ascii "packet o {
-    /// triple
-}
-
-packet Pad {
-    repeat f32 metadata `two words`,
-    repeat charz {
-        i32 i64_ @calculatedFrom(""\" ++ [233]%N ++ runes_of_ascii """) `u8 x,`,
-        repeat uint8x tag,
-        uint16 Packet @calculatedFrom(""a	b"") `u8 x,`,
-    },
-}
-
-packet metadata {
-    @leftPad()
-    repeat f32 i64_,
-    // `tick` ""quote"" 'q'
-    f32a @calculatedFrom(""x y""),
-    repeat zchar[007] body,
-    @rightPad('\x00')
-    string MetaDataX @lengthOf(options1),
-    @tag(3)
-    match _x as lengthOf {
-        ""`tick`"" : body,
-    },
-    @calculatedFrom(""`tick`"")
-    i64 options1 @calculatedFrom(""abc"") `" ++ [28040; 24687; 31867; 22411]%N ++ runes_of_ascii "`,
-    i8 As,
-    rootA @lengthOf(lengthOf),
-    // " ++ [27880; 37322]%N ++ runes_of_ascii "
-    // " ++ [27880; 37322]%N ++ runes_of_ascii "
-}
-
-MetaData body {
-    int16 len `line1
-    line2`,
-    uint16 stringy,
-    uint64 falsey `{ , }`,
-    len len,
-}// " ++ [128512]%N ++ runes_of_ascii " emoji")).
-Eval vm_compute in ("<<<M4298>>>" ++ check (runes_of_ascii "
-packet  Header
-{
-	repeat string  Header ,
-    repeat  options1 ,
-    zchar[ 
-        //	t
-
-00
-
-    ]
-    matchKey 
-,
-    }
-    options 
-	// @lengthOf(
-	  // `tick` ""quote"" 'q'
-	{
-    charz =
-    ""\n"" ;// a // b
-BodyLength =
-
-""x y""  u8x
-
-    =	""x y""u	// `tick` ""quote"" 'q'
-=
-
-255
-
-}	MetaData u8x { 
-        // a // b
-      // c
-    Z9_
-
-i8i8
-    ,  float32
-
-    stringy
-
-,  float
-    msg_type	// `tick` ""quote"" 'q'
-
-	`doc` , calculatedFrom  T  , Foo T
-`a\` ,} 
-root
-
-    packet
-roots
-    {
-@tag(	00 
-) /// triple
-    	match	// `tick` ""quote"" 'q'
-	len
-as
-roots 
-{ 
-
-// @lengthOf(
-
-  [ 4294967296
-
-]
-
-:
-	tag
-
-""// no comment""
-:
-
-    float
-	, 
-"""" :uint8x
-, 
-	    // " ++ [27880; 37322]%N ++ runes_of_ascii "
-
-	// trailing space 
-007 
-// " ++ [27880; 37322]%N ++ runes_of_ascii "
-    	:
-    options1
-    ,
-	} ,
-}
-
-")).
-Eval vm_compute in ("<<<M3766>>>" ++ check (runes_of_ascii "options
-{
-options1
-
-    =
-0	}
-    packet 
-_x
-{ @tag( 3  
-      // trailing space 
-    ) @lengthOf( packetx
-)
-repeat
-zchar[ 255
-	]roots
-, 
-}
-    packet
-Logon
-{
-f64
-float,
-	matchKey, 
-f32a 	 //
-  	Pad `" ++ [233]%N ++ runes_of_ascii "`
-
-, 
-      // `tick` ""quote"" 'q'
-      @calculatedFrom( ""packet"")	match
-    u128
-    as  Pad{ [ 	 // " ++ [27880; 37322]%N ++ runes_of_ascii "
-00 ,
-""CRC32"" ]:msg_type
-
-    65535
-    :
-	stringy,  [ ""abc""//	t
-	,
-    00
-    ,
-""" ++ [233]%N ++ runes_of_ascii "t" ++ [233]%N ++ runes_of_ascii """
-,
-""// no comment""
-, 	 // trailing space 
-0
-
-, ""// no comment"",
-
-""1""]
-    : matchKey [
-    ""it's"" 
-, 0 ]  :
-A},zchar[
-    3] 	 //x
-
-  uint8x
-    ,
-}  options
-
-{_x =' 'rootA = 	 //x
-	char[]
-    uint8x=  //	t
-""a	b""
-    ;body =
-    char[]
-        // trailing space 
-} root packet
-    len {
-
-    }
-
-")).
-Eval vm_compute in ("<<<M420>>>" ++ check (runes_of_ascii "MetaData // `tick` ""quote"" 'q'
-uint8x { char[// `tick` ""quote"" 'q'
-7 ] Foo ,	float64
-//x
-/// triple
-repeatCount
-,/// triple
-a1 uint8x `// not a comment` , }
-    packet
-Header{	@calculatedFrom( ""packet""  ) repeat calculatedFrom charz , } packet rootA { @calculatedFrom(""abc"") @calculatedFrom( """"	)	@lengthOf( // " ++ [128512]%N ++ runes_of_ascii " emoji
-asx)
-repeat
-    repeatCount,
-repeat// " ++ [128512]%N ++ runes_of_ascii " emoji
-o {
-crc options1
-//x
-// " ++ [128512]%N ++ runes_of_ascii " emoji
-, zchar[
-7] A	, Z9_	@lengthOf(Pad
-) ,
-calculatedFrom
-    // trailing space 
-    @calculatedFrom(
-""a\""b"" ) // packet A { u8 x, }
-, } , repeat a1 Foo `{ , }` ,
-    charz , } options { body=
-    """ ++ [28040; 24687]%N ++ runes_of_ascii """  ;
-packetx // a // b
-=
-    0 }
-MetaData _x // @lengthOf(
-{ int16 crc, }")).
-Eval vm_compute in ("<<<M740>>>" ++ check (runes_of_ascii "
-packet msg_type{ repeat
-i64 MetaDataX
-`line1
-line2` // trailing space 
-,  repeat char[] //
-u128 ,
-@tag(
-42
-    ) // @lengthOf(
-@lengthOf( u )
-@lengthOf( body )repeat
-zchar[ 255
-    //
-    ]
-// `tick` ""quote"" 'q'
-// trailing space 
-As	,calculatedFrom
-    //x
-    f32a
-    // trailing space 
-    ,}
-options
-{// @lengthOf(
-x
-    =  3 msg_type = ""`tick`"" falsey= ""CRC32""
-    ;
-    // trailing space 
-    body=
-    char[ 00] ; uint8x  = ""x y"" } options// @lengthOf(
-{//
-A
-    =
-    uint16
-}root packet BodyLength { @lengthOf( pack )
-    repeat
-    metadata T
-`{ , }`
-// packet A { u8 x, }
-//	t
-,}packet chars{ }
-// packet A { u8 x, }
-")).
-Eval vm_compute in ("<<<M4411>>>" ++ check (runes_of_ascii "//x
-packet _x {
-    repeat charz {
-        repeat asx,//x
-        string metadata,//x
-        uint64 a1 @calculatedFrom(""it's"") `a\`,
-    },
-    @rightPad()
-    msg_type len ``,
-    MetaDataX asx,
-    @rightPad('\x00')
-    zchar[3] int,
-}
-
-packet Packet {
-    @leftPad()
-    string_ {
-        repeat calculatedFrom `it's`,
-    },
-    @calculatedFrom(""a	b"")
-    @tag(00)
-    @rightPad(' ')
-    u64 stringy @calculatedFrom(""a	b""),
-    @leftPad('\x00')
-    options1 `" ++ [233]%N ++ runes_of_ascii "`,
-    @rightPad()
-    repeat char[007] Foo `line1
-        line2`,
-}
-
-options {
-    len = '\x00';
-    roots = ""{,}""
-    packetx = i64;
-}")).
-Eval vm_compute in ("<<<M1013>>>" ++ check (runes_of_ascii "options { int =
-""`tick`"" ; Foo  =' '	; Foo =
-""x y"" ; x_y_z	= ""x y""
-    //	t
-    ;}packet uint8x { @lengthOf( int
-// `tick` ""quote"" 'q'
-// trailing space 
-)
-@tag( 0 )
-    Pad // `tick` ""quote"" 'q'
-,u8 x ,	@lengthOf(Z9_ )
-    f32 BodyLength
-    `crlf
-line` ,repeat
-char[255
-] f32a
-    ,  repeat msg_type
-lengthOf,
-@leftPad ('\x00'
-) repeat int32
-asx,
-    repeat string f32a //x
-, // `tick` ""quote"" 'q'
-} MetaData packetx { int64 asx , Foo
-len`// not a comment` , i32
-MetaDataX `" ++ [233]%N ++ runes_of_ascii "`
-    ,
-    Foo
-Header
-`line1
-line2` ,
-    zchar[ 0123456789
-] lengthOf ,	float32 metadata , }")).
-Eval vm_compute in ("<<<M1045>>>" ++ check (runes_of_ascii "MetaData pack
-{} // trailing space 
-MetaData
-    u { zchar[
-    7 ] lengthOf `say ""hi""`
-    , }packet // trailing space 
-metadata {
-    @leftPad ()
-    stringy chars ,
-    repeat
-    int {
-uint8  A , zchar[ 4294967296]Packet @lengthOf( x
-)`
-`
-    ,
-repeat
-    crc zchar , }
-// " ++ [128512]%N ++ runes_of_ascii " emoji
-//x
-, repeat options1 { u16 u
-, string_ { string_
-    MetaDataX,repeat char[	0123456789
-]  uint8x ,
-repeat uint32 T ,
-// packet A { u8 x, }
-//x
-}, uint16 packetx , }
-// packet A { u8 x, }
-// `tick` ""quote"" 'q'
-, @leftPad (
-' ' ) rootA `crlf
-line` ,}
-// " ++ [27880; 37322]%N ++ runes_of_ascii "
-")).
-Eval vm_compute in ("<<<M3679>>>" ++ check (runes_of_ascii "
-root
-
-packet string_{
-    @tag( 65535	)	u8	u8x
-
-    @calculatedFrom( ""it's"" // packet A { u8 x, }
-  )
-
-    , 
-zchar[ 
-10
-    // " ++ [27880; 37322]%N ++ runes_of_ascii "
-		//
-  ]
-
-    pack,
-	string  f32a ,
-	Pad
-
-x  `say ""hi""`
-	,
-	@calculatedFrom( ""`tick`"" 
-) 	 // c
-  @rightPad( ' ' 
-)
-@calculatedFrom( 
-""" ++ [128512]%N ++ runes_of_ascii """) match
-    tag
-
-as
-
-    u128
-
-    { [255
-
-    ,
-	""packet""
-
-    ,
-    4294967296
-,
-
-""// no comment"",
-
-""\n""
-    , // a // b
-65535
-    , """" 
-        // c
-  ,""" ++ [28040; 24687]%N ++ runes_of_ascii """
-]
-:  falsey""CRC32""
-: 
-uint8x
-, [007
-
-,
-    3
-, """ ++ [28040; 24687]%N ++ runes_of_ascii """
-	]: As
-
-,
-    }
-	, }
-
-")).
-Eval vm_compute in ("<<<M426>>>" ++ check (runes_of_ascii "
-options {x= ""abc"" ; } root packet calculatedFrom {// trailing space 
-@tag( 1 )match	x_y_z
-    as int //	t
-{[ ""it's"" ] :
-    uint8x ,  4294967296 : i64_ , ""x y"": // `tick` ""quote"" 'q'
-BodyLength , ""x y"" : u8x, }  ,
-    @tag(007)@tag( 7)
-    // " ++ [27880; 37322]%N ++ runes_of_ascii "
-    @lengthOf( x_y_z )
-    u64 crc, @calculatedFrom( ""CRC32"" ) u64 chars @calculatedFrom(// " ++ [27880; 37322]%N ++ runes_of_ascii "
-""// no comment""
-    ) ,@rightPad
-// c
-//x
-( ) zchar[ 10 ] lengthOf ,
-char[ 65535	] u128
-    // c
-    ,}
-options { falsey = true ; } packet
-BodyLength
-    {}")).
-Eval vm_compute in ("<<<M1117>>>" ++ check (runes_of_ascii "options {T = zchar[ 0123456789
-    ] }root packet Pad { match repeatCount  as pack{[ 3 ,
-    /// triple
-    255, ""// no comment""
-, """ ++ [28040; 24687]%N ++ runes_of_ascii """ , ""it's"",
-255
-, ""it's"" ]:
-packetx
-    // `tick` ""quote"" 'q'
-    ,
-} ,
-@calculatedFrom( ""CRC32""
-) @lengthOf( Header)	@lengthOf( u ) match As
-    as  calculatedFrom// c
-{ [	255, 00]
-// trailing space 
-/// triple
-:// " ++ [128512]%N ++ runes_of_ascii " emoji
-Z9_ ,
-[""a	b""]:// packet A { u8 x, }
-Header}
-// trailing space 
-// " ++ [128512]%N ++ runes_of_ascii " emoji
-,  x_y_z
-,
-    // packet A { u8 x, }
-    }
-")).
-Eval vm_compute in ("<<<M3631>>>" ++ check (runes_of_ascii "
-options	{ StringPrefixLenType
-	=	u8
-	;
-ArrayPrefixLenType
-= u32 ;
-
-    } packet	Quote {
-
-    u32	Ref
-,InNote74
-
-{	u8	pad0,  }  ,}
-
-packet Ack
-{
-	repeat string	OrderId, 
-}
-    packet Logout
-{zchar[
-    7
-    ] venue,
-
-char[
-12 
-] Px, string	count ,
-char[]Tail,char[]
-
-    Qty ,
-
-    Quote  ,}root 
-packet
-Trade
-	{ zchar[2	] price,
-u32  x, u32 lastPx
-@lengthOf(Body 
-) ,
-
-match x
-as Body { 148
-	:
-
-Ack, 171 : Quote ,	15
-
-    :Logout , }  ,}
-
-")).
-Eval vm_compute in ("<<<M680>>>" ++ check (runes_of_ascii "packet len { @tag( 4294967296 ) repeat f32 a1 `" ++ [28040; 24687; 31867; 22411]%N ++ runes_of_ascii "`
-    ,
-uint8x
-`
-`
-//
-//	t
-,} root packet rootA
-    { match crc
-    as // packet A { u8 x, }
-i8i8 // c
-{ ""a\""b"" : _x
-00 :
-Packet , ""// no comment"" : MetaDataX , // c
-[  """ ++ [28040; 24687]%N ++ runes_of_ascii """//x
-, 007 ] : MetaDataX 42:  charz , [ """ ++ [233]%N ++ runes_of_ascii "t" ++ [233]%N ++ runes_of_ascii """	, // a // b
-""abc"" ]: _x, } , uint16 Logon, @leftPad
-    (
-' ' ) // packet A { u8 x, }
-@leftPad
-( // " ++ [27880; 37322]%N ++ runes_of_ascii "
-' ' ) uint8  stringy @lengthOf(
-    msg_type ) `
-`
-    , }")).
-Eval vm_compute in ("<<<M408>>>" ++ check (runes_of_ascii "packet body{ @tag(42 )
-rootA Logon `line1
-line2`
-, repeatCount{ repeat lengthOf x_y_z , Pad
-    , repeat falsey packetx
-    ,	string rootA`` /// triple
-,} ,
-@leftPad
-    // a // b
-    ('\x00' )char[
-0
-]
-    roots , msg_type
-,
-u128 charz
-    ,
-    string crc`" ++ [28040; 24687; 31867; 22411]%N ++ runes_of_ascii "`
-    , match Header as Packet
-    {
-10  :x , [
-//x
-// `tick` ""quote"" 'q'
-""1""] : matchKey
-, 10
-: // @lengthOf(
-i64_ 255// a // b
-:T , } ,
-} packet	o { }")).
-Eval vm_compute in ("<<<M4209>>>" ++ check (runes_of_ascii "MetaData f32a {
-    char[] trueish,
-    float64 u128 `" ++ [28040; 24687; 31867; 22411]%N ++ runes_of_ascii "`,
-    //	t
-    tag f32a,
-    matchKey int `two words`,
-    i8 pack `a\`,
-}
-
-packet asx {
-    int8 Header `say ""hi""`,
-}
-
-MetaData roots {
-    i32 tag `" ++ [233]%N ++ runes_of_ascii "`,
-    crc Z9_,
-    T T `
-        `,//
-    int32 matchKey,
-    matchKey Header `line1
-        line2`,
-    // `tick` ""quote"" 'q'
-    //x
-    char[0] MetaDataX,
-    // c
-    // @lengthOf(
-}// " ++ [27880; 37322]%N)).
-Eval vm_compute in ("<<<M701>>>" ++ check (runes_of_ascii "// a // b
-root	packet
-//x
-// `tick` ""quote"" 'q'
-f32a { } root packet  packetx { match x_y_z as	Logon{ // `tick` ""quote"" 'q'
-""" ++ [28040; 24687]%N ++ runes_of_ascii """
-    : Packet
-[ 7
-] // @lengthOf(
-:falsey
-,	""`tick`""
-: roots
-    ,	""packet"" : u128 , } ,match falsey as metadata
-{65535 :As
-,  ""a\""b""
-: crc,
-""\" ++ [233]%N ++ runes_of_ascii """
-: Logon
-    , } , u8x `two words` , @tag( 0 )Z9_,}
-// " ++ [128512]%N ++ runes_of_ascii " emoji
-// " ++ [128512]%N ++ runes_of_ascii " emoji
-options	{	options1 = false }")).
-Eval vm_compute in ("<<<M533>>>" ++ check (runes_of_ascii "
-packet repeatCount {uint64
-stringy, } options {
-crc
-    = '0' } //x
-packet int{ repeat
-a1 charz ,
-    }options { matchKey = """ ++ [28040; 24687]%N ++ runes_of_ascii """  ;
-    crc = """ ++ [28040; 24687]%N ++ runes_of_ascii """ ;roots= // `tick` ""quote"" 'q'
-'\x00'
-;
-// packet A { u8 x, }
-//x
-} packet i8i8{ @calculatedFrom( ""abc""
-) char[]_x `
-`
-,/// triple
-uint8 Packet// a // b
-`crlf
-line` , string_ `{ , }` // " ++ [27880; 37322]%N ++ runes_of_ascii "
-,
-/// triple
-// " ++ [128512]%N ++ runes_of_ascii " emoji
-}")).
-Eval vm_compute in ("<<<M858>>>" ++ check (runes_of_ascii "MetaData _x{
-    body
-float
-, float64
-    x_y_z `tab	here` ,  char[00
-]
-o`a\`
-, Z9_	crc
-    `doc`
-,} packet options1 { @lengthOf( T )@lengthOf( chars  ) @rightPad
-(
-    ' '  ) string_ falsey ,
-    // packet A { u8 x, }
-    } MetaData Pad
-{ //x
-Foo Z9_
-    `crlf
-line` , x_y_z packetx	,
-    uint32 calculatedFrom , i64 falsey ,packetx As ``,  }")).
-Eval vm_compute in ("<<<M771>>>" ++ check (runes_of_ascii "MetaData
-chars{ zchar[// " ++ [27880; 37322]%N ++ runes_of_ascii "
-3] As `say ""hi""` , }root packet lengthOf
-{
-//
-/// triple
-@rightPad( ' '
-// " ++ [27880; 37322]%N ++ runes_of_ascii "
-// @lengthOf(
-) f32 MetaDataX  @calculatedFrom( """"
-    )`{ , }` , match string_
-as // trailing space 
-x_y_z { 42
-: lengthOf,00  :chars ""// no comment"" : BodyLength , ""// no comment"":	tag ,255 : a1 ,
-""""	:
-stringy
-,
-    },
-    }
-")).
-Eval vm_compute in ("<<<M570>>>" ++ check (runes_of_ascii "options {
-i64_  = char[
-    65535 ]
-T = '0' } packet
-crc{@calculatedFrom(
-""abc"" )zchar[ 007 ] //
-msg_type
-@lengthOf( Header)  , repeat int8 string_
-`crlf
-line`
-,tag@lengthOf( BodyLength ) ,  }
-    // trailing space 
-    options
-    {
-    //
-    matchKey =
-// c
-// c
-""" ++ [128512]%N ++ runes_of_ascii """	; /// triple
-asx =' '	; crc
-    = true
-;
-    }")).
-Eval vm_compute in ("<<<M2041>>>" ++ check (runes_of_ascii "MetaData
-    u { }  options {
-// c
-// @lengthOf(
-float = int8 ;rootA =false ; As =	int16 // `tick` ""quote"" 'q'
-repeatCount
-    // trailing space 
-    =
-    int16
-; u8x =
-    //	t
-    '\x00' ; } options	{
-    repeatCount
-= 0
-u128
-    //
-    = false ; i64_
-// trailing space 
-// `tick` ""quote"" 'q'
-= '0' '0' ; //	t
-}
-")).
-Eval vm_compute in ("<<<M2026>>>" ++ check (runes_of_ascii "MetaData
-    u { }  options {
-// c
-// @lengthOf(
-float = int8 ;rootA =false ; As =	int16 // `tick` ""quote"" 'q'
-repeatCount
-    // trailing space 
-    =
-    int16
-; u8x =
-    //	t
-    '\x00' ; } options	{
-    repeatCount
-= 0
-u128
-    //
-    = false ; ; i64_
-// trailing space 
-// `tick` ""quote"" 'q'
-= '0' ; //	t
-}
-")).
-Eval vm_compute in ("<<<M1863>>>" ++ check (runes_of_ascii "MetaData
-    ( { }  options {
-// c
-// @lengthOf(
-float = int8 ;rootA =false ; As =	int16 // `tick` ""quote"" 'q'
-repeatCount
-    // trailing space 
-    =
-    int16
-; u8x =
-    //	t
-    '\x00' ; } options	{
-    repeatCount
-= 0
-u128
-    //
-    = false ; i64_
-// trailing space 
-// `tick` ""quote"" 'q'
-= '0' ; //	t
-}
-")).
-Eval vm_compute in ("<<<M2012>>>" ++ check (runes_of_ascii "MetaData
-    u { }  options {
-// c
-// @lengthOf(
-float = int8 ;rootA =false ; As =	int16 // `tick` ""quote"" 'q'
-repeatCount
-    // trailing space 
-    =
-    int16
-; u8x =
-    //	t
-    '\x00' ; } options	{
-    repeatCount
-= 0
-=
-    //
-    u128 false ; i64_
-// trailing space 
-// `tick` ""quote"" 'q'
-= '0' ; //	t
-}
-")).
-Eval vm_compute in ("<<<M2015>>>" ++ check (runes_of_ascii "MetaData
-    u { }  options {
-// c
-// @lengthOf(
-float = int8 ;rootA =false ; As =	int16 // `tick` ""quote"" 'q'
-repeatCount
-    // trailing space 
-    =
-    int16
-; u8x =
-    //	t
-    '\x00' ; } options	{
-    repeatCount
-= 0
-u128
-    //
-     false ; i64_
-// trailing space 
-// `tick` ""quote"" 'q'
-= '0' ; //	t
-}
-")).
-Eval vm_compute in ("<<<M1943>>>" ++ check (runes_of_ascii "MetaData
-    u { }  options {
-// c
-// @lengthOf(
-float = int8 ;rootA =false ; As =	int16 // `tick` ""quote"" 'q'
-match
-    // trailing space 
-    =
-    int16
-; u8x =
-    //	t
-    '\x00' ; } options	{
-    repeatCount
-= 0
-u128
-    //
-    = false ; i64_
-// trailing space 
-// `tick` ""quote"" 'q'
-= '0' ; //	t
-}
-")).
-Eval vm_compute in ("<<<M1340>>>" ++ check (runes_of_ascii "  root
-// `tick` ""quote"" 'q'
-//
-packet
-    T
-    {	@rightPad (	) @calculatedFrom( ""it's""
-) int A, match
-    Packet as Packet { 0123456789 : u128 ,// c
-""a\\"" : Foo , 1:// @lengthOf(
-int , [
+Eval vm_compute in ("<<<M2033>>>" ++ check (runes_of_ascii "packet BodyLength {
+    repeat f32a Pad `// not a comment`,
     // " ++ [128512]%N ++ runes_of_ascii " emoji
-    7, 4294967296 , ""\n"" ,
-""abc""	,
-""abc"",
-""\" ++ [233]%N ++ runes_of_ascii """] : msg_type }, }
-    options
-{ zchar  =
-' ' ; }
-")).
-Eval vm_compute in ("<<<M3728>>>" ++ check (runes_of_ascii "
-
-  options 
-{ 
-LittleEndian
-
-= true
-	;
-}packet  Sub {
-	u8
-
-a
-	,
-    @calculatedFrom( 
-""CRC16""
-)u64
-SubSum , }root
-    packet	Frame
-	{u16	MsgType 
-,
-
-    u16 BodyLen
-
-@lengthOf(
-    Body  ), Sub  Body 
-,
-
-    string note
-	,
-	@calculatedFrom(
-
-""CRC16"" 
-) u64 Checksum
-
-,
-u8	tail
-,  }
-")).
-Eval vm_compute in ("<<<M4461>>>" ++ check (runes_of_ascii "root packet BodyLength {
-    u16 tag @calculatedFrom(""packet""),
-    u8 i8i8,
-    repeat float64 string_ `u8 x,`,
+    // c
 }
 
-MetaData stringy {
-    repeatCount a1,
-    // " ++ [27880; 37322]%N ++ runes_of_ascii "
-    char[0123456789] u128 `doc`,
-    u16 _x,
-    i64 pack,
-    i64 BodyLength `say ""hi""`,
-    zchar[255] Z9_,
-}")).
-Eval vm_compute in ("<<<M3928>>>" ++ check (runes_of_ascii "packet MDSnapshotZZ {
-    u8 a,
-}
-
-packet OrderACK {
-    u16 b,
-}
-
-packet HTTPServerInfo {
-    string s,
-}
-
-root packet FIXMsg {
-    u8 KType,
-    MDSnapshotZZ,
-    repeat OrderACK,
-    match KType as Body {
-        1 : HTTPServerInfo,
-        2 : OrderACK,
-    },
-}")).
-Eval vm_compute in ("<<<M1489>>>" ++ check (runes_of_ascii "packet packet
-//	t
-// trailing space 
-_x {
-// packet A { u8 x, }
-// c
-char[
-3
-    ] u8x @lengthOf(
-u8x ) , @calculatedFrom(""" ++ [128512]%N ++ runes_of_ascii """ // @lengthOf(
-)
-i16	Foo
-@lengthOf(	string_
-    )`doc`	, repeat	i64 metadata , @lengthOf( string_
-) i8 // c
-u  `line1
-line2`	,
-}
-")).
-Eval vm_compute in ("<<<M1628>>>" ++ check (runes_of_ascii "packet
-//	t
-// trailing space 
-_x {
-// packet A { u8 x, }
-// c
-char[
-3
-    ] u8x @lengthOf(
-u8x ) , @calculatedFrom(""" ++ [128512]%N ++ runes_of_ascii """ // @lengthOf(
-)
-i16	Foo
-@lengthOf(	string_
-    )`doc`	, repeat	i64 metadata , @lengthOf( string_
-) i8 i8 // c
-u  `line1
-line2`	,
-}
-")).
-Eval vm_compute in ("<<<M1658>>>" ++ check (runes_of_ascii "packet
-|//	t
-// trailing space 
-_x {
-// packet A { u8 x, }
-// c
-char[
-3
-    ] u8x @lengthOf(
-u8x ) , @calculatedFrom(""" ++ [128512]%N ++ runes_of_ascii """ // @lengthOf(
-)
-i16	Foo
-@lengthOf(	string_
-    )`doc`	, repeat	i64 metadata , @lengthOf( string_
-) i8 // c
-u  `line1
-line2`	,
-}
-")).
-Eval vm_compute in ("<<<M1579>>>" ++ check (runes_of_ascii "packet
-//	t
-// trailing space 
-_x {
-// packet A { u8 x, }
-// c
-char[
-3
-    ] u8x @lengthOf(
-u8x ) , @calculatedFrom(""" ++ [128512]%N ++ runes_of_ascii """ // @lengthOf(
-)
-i16	Foo
-@lengthOf(	string_
-    `doc`)	, repeat	i64 metadata , @lengthOf( string_
-) i8 // c
-u  `line1
-line2`	,
-}
-")).
-Eval vm_compute in ("<<<M1622>>>" ++ check (runes_of_ascii "packet
-//	t
-// trailing space 
-_x {
-// packet A { u8 x, }
-// c
-char[
-3
-    ] u8x @lengthOf(
-u8x ) , @calculatedFrom(""" ++ [128512]%N ++ runes_of_ascii """ // @lengthOf(
-)
-i16	Foo
-@lengthOf(	string_
-    )`doc`	, repeat	i64 metadata , @lengthOf( string_
- i8 // c
-u  `line1
-line2`	,
-}
-")).
-Eval vm_compute in ("<<<M1592>>>" ++ check (runes_of_ascii "packet
-//	t
-// trailing space 
-_x {
-// packet A { u8 x, }
-// c
-char[
-3
-    ] u8x @lengthOf(
-u8x ) , @calculatedFrom(""" ++ [128512]%N ++ runes_of_ascii """ // @lengthOf(
-)
-i16	Foo
-@lengthOf(	string_
-    )`doc`	, 	i64 metadata , @lengthOf( string_
-) i8 // c
-u  `line1
-line2`	,
-}
-")).
-Eval vm_compute in ("<<<M4582>>>" ++ check (runes_of_ascii "packet calculatedFrom {
-    match Logon as u128 {
-        [1, ""// no comment""] : u8x,
-        ""`tick`"" : Header,
-        ""`tick`"" : BodyLength,
-        ""it's"" : zchar,
-    },// `tick` ""quote"" 'q'
-    char metadata @calculatedFrom(""a\\""),
-}")).
-Eval vm_compute in ("<<<M4064>>>" ++ check (runes_of_ascii "  // @lengthOf(
-    MetaData
-
-Foo
-	{}
-    MetaData  // trailing space 
-	packetx	{
-
-f32a	A 
-`two words` ,u8	u8x	`" ++ [28040; 24687; 31867; 22411]%N ++ runes_of_ascii "`,
-    charz
-lengthOf
-    /// triple
-    ,int
-x_y_z
-
-    ,  // " ++ [128512]%N ++ runes_of_ascii " emoji
-	char[
-    00 ]	packetx 
-,
-} // a // b")).
-Eval vm_compute in ("<<<M3987>>>" ++ check (runes_of_ascii "packet roots {
-    pack,
-    @calculatedFrom(""it's"")
-    MetaDataX @lengthOf(u),
-    @lengthOf(falsey)
-    metadata _x `doc`,
+MetaData As {
 }
 
 options {
-    BodyLength = """ ++ [28040; 24687]%N ++ runes_of_ascii """;
-    Packet = 0123456789;
-    T = ' ';
-    T = 4294967296;
-}")).
-Eval vm_compute in ("<<<M1125>>>" ++ check (runes_of_ascii "MetaData string_ {
-i32 packetx
-`doc`, }//
-packet zchar{ @rightPad
-    (' '
-)@calculatedFrom(""`tick`"" ) @calculatedFrom( ""CRC32"" // c
-)u8x
-    /// triple
-    @lengthOf(
-    Foo ) ,
-    }	root
-packet i8i8
-    { }
-
-")).
-Eval vm_compute in ("<<<M3424>>>" ++ check (runes_of_ascii "// top
-packet // c0
-o // c1
-{ // c2
-repeat // c3
-Logon // c4
-uint8x // c5
-, // c6
-} // c7
-options // c8
-{ // c9
-asx // c10
-= // c11
-zchar[ // c12
-3 // c13
-] // c14
-stringy // c15
-= // c16
-'\x00' // c17
-} // c18
-")).
-Eval vm_compute in ("<<<M713>>>" ++ check (runes_of_ascii "// @lengthOf(
-MetaData
-    Foo{} MetaData// trailing space 
-packetx
-{ f32a A
-`two words` , u8
-u8x `" ++ [28040; 24687; 31867; 22411]%N ++ runes_of_ascii "`,	charz
-    lengthOf
-    /// triple
-    ,
-int x_y_z , // " ++ [128512]%N ++ runes_of_ascii " emoji
-char[ 00	] packetx
-    ,} // a // b")).
-Eval vm_compute in ("<<<M1848>>>" ++ check (runes_of_ascii "options { trueish = ""`tick`"" ; string_= """ ++ [233]%N ++ runes_of_ascii "t" ++ [233]%N ++ runes_of_ascii """
-    // c
-    } root
-    packet body { stringy @calculatedFrom(
-""a	b"" " ++ [8232]%N ++ runes_of_ascii ") `line1
-line2` , }
-packet Logon {
-    @leftPad(
-    ' ' ) //	t
-u16 string_ `u8 x,` ,
+    crc = ""a\\""
+    float = '\x00'
+    a1 = ' ';
+    i8i8 = 4294967296
 }
-")).
-Eval vm_compute in ("<<<M1773>>>" ++ check (runes_of_ascii "options { trueish = ""`tick`"" ; string_= """ ++ [233]%N ++ runes_of_ascii "t" ++ [233]%N ++ runes_of_ascii """
-    // c
-    } root
-    packet body { stringy @calculatedFrom(
-""a	b"" ) `line1
-line2` , packet
-} Logon {
-    @leftPad(
-    ' ' ) //	t
-u16 string_ `u8 x,` ,
-}
-")).
-Eval vm_compute in ("<<<M1806>>>" ++ check (runes_of_ascii "options { trueish = ""`tick`"" ; string_= """ ++ [233]%N ++ runes_of_ascii "t" ++ [233]%N ++ runes_of_ascii """
-    // c
-    } root
-    packet body { stringy @calculatedFrom(
-""a	b"" ) `line1
-line2` , }
-packet Logon {
-    @leftPad(
-    ' '  //	t
-u16 string_ `u8 x,` ,
-}
-")).
-Eval vm_compute in ("<<<M1749>>>" ++ check (runes_of_ascii "options { trueish = ""`tick`"" ; string_= """ ++ [233]%N ++ runes_of_ascii "t" ++ [233]%N ++ runes_of_ascii """
-    // c
-    } root
-    packet body { stringy @lengthOf(
-""a	b"" ) `line1
-line2` , }
-packet Logon {
-    @leftPad(
-    ' ' ) //	t
-u16 string_ `u8 x,` ,
-}
-")).
-Eval vm_compute in ("<<<M4574>>>" ++ check (runes_of_ascii "packet calculatedFrom {
-    @calculatedFrom(""{,}"")
-    // c
-    @tag(65535)
-    f32 Packet @lengthOf(o),
-    @calculatedFrom(""`tick`"")
-    uint32 MetaDataX @calculatedFrom(""it's"") ``,
-}// a // b")).
-Eval vm_compute in ("<<<M277>>>" ++ check (runes_of_ascii "// " ++ [128512]%N ++ runes_of_ascii " emoji
-MetaData trueish {
-    // @lengthOf(
-    asx lengthOf
-    // a // b
-    , int8 // c
-float`it's`
-,}
-MetaData
-int{ int8
-charz ,} packet asx { o @calculatedFrom(
-""\" ++ [233]%N ++ runes_of_ascii """
-    ) ,
-}
-")).
-Eval vm_compute in ("<<<M4204>>>" ++ check (runes_of_ascii "
-packet 
-Z9_
 
-    { 
-// trailing space 
-
-  // " ++ [128512]%N ++ runes_of_ascii " emoji
-  @calculatedFrom(
-	""1""  )// packet A { u8 x, }
-    matchKey
-	@calculatedFrom( """ ++ [128512]%N ++ runes_of_ascii """
-
-)`tab	here`
-
-,} 
-
-// packet A { u8 x, }")).
-Eval vm_compute in ("<<<M3391>>>" ++ check (runes_of_ascii "// top
-MetaData // c0
-body
-    // c1
-{
-    // c2
-i64
-    // c3
-pack `it's`
-    // c5
-, } packet stringy // c9
-{ // c10
-int16
-    // c11
-calculatedFrom ,
-    // c13
-} // c14
-")).
-Eval vm_compute in ("<<<M259>>>" ++ check (runes_of_ascii "options { Pad = char[]; u8x
-    // trailing space 
-    =
-    ""packet"";
-o = i64
-; stringy
-=""a\""b""
-packetx
-    // trailing space 
-    = 65535
-} options
-{ chars
-= '0'}")).
-Eval vm_compute in ("<<<M1372>>>" ++ check (runes_of_ascii "packet
-x	{ As { a1
-{ char[
-65535 ]
-// " ++ [27880; 37322]%N ++ runes_of_ascii "
-/// triple
-crc `` ,	msg_type ,} , } , repeat Z9_ {
-    T ,	pack ,	repeat tag  A, int64/// triple
-f32a`u8 x,` ,	}
-,
-} 	 ")).
-Eval vm_compute in ("<<<M627>>>" ++ check (runes_of_ascii "//
-MetaData calculatedFrom {
-    char[ 42 ]
-tag	,
-    body tag ``
-, int16 int , zchar[ 42 ] tag //	t
-`doc`
-, char[]matchKey , uint32 // " ++ [128512]%N ++ runes_of_ascii " emoji
-Z9_,  } //	t")).
-Eval vm_compute in ("<<<M2165>>>" ++ check (runes_of_ascii "options{
-_x
-= true
-} options
-{ o	= /// triple
-false
-    ; chars
-= ""\n"" } root packet	Pad Pad
-/// triple
-// packet A { u8 x, }
-{	chars
-    // a // b
-    ,}")).
-Eval vm_compute in ("<<<M3776>>>" ++ check (runes_of_ascii "packet rootA {
-    Z9_ u `doc`,// packet A { u8 x, }
-    i16 options1 `// not a comment`,
-    @rightPad(' ')
-    lengthOf {
-        zchar[3] body,
-    },
-}")).
-Eval vm_compute in ("<<<M2397>>>" ++ check (runes_of_ascii "// c
-packet x { @lengthOf( metadata ) repeat lengthOf
-,a1{
-trueish	,// c
-repeat//	t
-MetaDataX , } , zchar[
-    42	] rootA // `tick` ""quote"" 'q'
-}
-    ,
-")).
-Eval vm_compute in ("<<<M699>>>" ++ check (runes_of_ascii "// `tick` ""quote"" 'q'
-root packet u8x{match zchar as falsey
-    { """ ++ [128512]%N ++ runes_of_ascii """:
-    len	},}MetaData// c
-rootA
-{
+packet u128 {
+    // `tick` ""quote"" 'q'
     //
-    char[
-3 ] rootA , uint64
-asx
-    , }")).
-Eval vm_compute in ("<<<M3818>>>" ++ check (runes_of_ascii "  packet  A
-
-{
-
-    match
-	k	as	n {	[
-    1
-
-,	""bb"" ,
-	007 , ""d""
-
-    , 5
-
-    ,  ""f""
-    ,
-
-    7
-
-,""h"",
-	9
-	,
-
-""j""]
-
-: 
-B
-
-    ,2 :  C	}, } ")).
-Eval vm_compute in ("<<<M225>>>" ++ check (runes_of_ascii "
-MetaData options1 { zchar[
-    007 ] // `tick` ""quote"" 'q'
-zchar	`a\` , uint32 As ,
-    i8i8
-Foo ,
-// packet A { u8 x, }
-//x
-}
-    packet falsey { }")).
-Eval vm_compute in ("<<<M623>>>" ++ check (runes_of_ascii "packet x_y_z {
-@lengthOf(
-roots
-) u32  Pad `{ , }` ,
-    // packet A { u8 x, }
-    repeat body{ repeat
-    body roots `line1
-line2` , }
-    ,
-}
-
-")).
-Eval vm_compute in ("<<<M856>>>" ++ check (runes_of_ascii "root packet Header
-{ match leftPad as Foo
-    {// c
-7 : o
-// @lengthOf(
-//x
+    match stringy as o {
+        ""`tick`"" : Foo,
+        [4294967296] : x_y_z,
+    },
+    zchar[10] Packet @lengthOf(u8x),
+    @lengthOf(roots)
+    // " ++ [27880; 37322]%N ++ runes_of_ascii "
+    x `// not a comment`,
+    i64 asx @lengthOf(rootA),
+    metadata,
+    i64_ @calculatedFrom(""\" ++ [233]%N ++ runes_of_ascii """),
+    @lengthOf(u128)
+    repeat o `two words`,
+}")).
+Eval vm_compute in ("<<<M251>>>" ++ check (runes_of_ascii "options { tag
+=
+false// c
+; charz =
+char[
+    //
+    4294967296 ] ; float = ' '; u =// `tick` ""quote"" 'q'
+zchar[ 255
+    ] x//x
+=
+    ""a\""b""}
+packet leftPad /// triple
+{match
+As as
+    falsey{ [ 10
+    ,0123456789, 007
 ,
-0 : u8x 65535: leftPad  ,
-    00:
-asx  , ""it's"" : //
-o , },
+""" ++ [28040; 24687]%N ++ runes_of_ascii """
+// a // b
+// trailing space 
+, //	t
+""packet""	, ""`tick`"", ""1"" ] :
+calculatedFrom , } ,@calculatedFrom(
+    ""it's""
+) float64// c
+x_y_z @lengthOf(  leftPad ) , trueish
+@lengthOf(packetx)
+    , }options
+{ string_	=
+    ""a\""b"" ;
+_x = false }
+")).
+Eval vm_compute in ("<<<M353>>>" ++ check (runes_of_ascii "options { len=
+    // c
+    ""abc""
+; lengthOf = // trailing space 
+true ;} packet
+float {
+    @tag( 65535
+// `tick` ""quote"" 'q'
+// trailing space 
+) @rightPad
+(' ' )int32
+zchar ,repeat int64 trueish
+,
+@tag(10// packet A { u8 x, }
+)
+T repeatCount ,@leftPad (' ' )float32 MetaDataX
+    `it's`
+    ,
+@rightPad (	' ' ) repeat zchar[ 0123456789 ] A
+    , repeat
+i8 f32a , u8 body
+@calculatedFrom( ""it's""
+)
+,
     }
 ")).
-Eval vm_compute in ("<<<M565>>>" ++ check (runes_of_ascii "
-packet T {
-@leftPad ( )
-@calculatedFrom(""" ++ [233]%N ++ runes_of_ascii "t" ++ [233]%N ++ runes_of_ascii """ ) msg_type // trailing space 
-@lengthOf( i8i8
-)`a\`
-    ,
-// `tick` ""quote"" 'q'
-// " ++ [128512]%N ++ runes_of_ascii " emoji
+Eval vm_compute in ("<<<M1618>>>" ++ check (runes_of_ascii "root packet stringy {
+    // trailing space 
+    @calculatedFrom(""" ++ [28040; 24687]%N ++ runes_of_ascii """)
+    repeat Foo {
+        float64 i64_ @lengthOf(Z9_),
+    },
+    repeat lengthOf {
+        falsey {
+            uint16 len,
+        },
+        Packet uint8x `a\`,
+    },
+    @calculatedFrom(""" ++ [128512]%N ++ runes_of_ascii """)
+    string MetaDataX `" ++ [233]%N ++ runes_of_ascii "`,
+}
+
+packet chars {
+    @leftPad('0')
+    i64 trueish @lengthOf(Z9_),
 }")).
-Eval vm_compute in ("<<<M3360>>>" ++ check (runes_of_ascii "// top
-packet // c0
-x // c1
-{ // c2
-@rightPad // c3
-( // c4
-) // c5
-repeat // c6
-roots // c7
-Logon // c8
-`doc` // c9
-, // c10
-} // c11
+Eval vm_compute in ("<<<M1539>>>" ++ check (runes_of_ascii "
+options  {
+	LittleEndian=
+true
+    ;
+
+StringPrefixLenType=
+u8 ; ArrayPrefixLenType
+	=
+u8 ;
+}  packet
+
+    Ack
+
+{ }
+root
+	packet  Quote
+
+    {
+	Ack
+
+    , InSym94
+{ repeat
+	Ack
+,
+
+} 
+,  u16
+	msgKind
+	,
+u16  OrderId
+@lengthOf(  Body)
+,match  msgKind as 
+Body
+{
+	[
+
+    110
+    ,
+
+48
+	]
+
+    :
+    Ack, }	,
+}
 ")).
-Eval vm_compute in ("<<<M698>>>" ++ check (runes_of_ascii "MetaData Z9_ {
-    } packet lengthOf {
-@tag(
-    00	) u32
-trueish , // trailing space 
-repeat string roots
-`doc`	,
-} // " ++ [128512]%N ++ runes_of_ascii " emoji")).
-Eval vm_compute in ("<<<M254>>>" ++ check (runes_of_ascii "packet rootA {	}
-// `tick` ""quote"" 'q'
-/// triple
-options  {stringy
-    =
-0123456789
-;
-T =42 ;
-string_ = ""a\""b""
-    ; }
-//
+Eval vm_compute in ("<<<M222>>>" ++ check (runes_of_ascii "options	{ // packet A { u8 x, }
+rootA
+= true
+    ; chars
+=	true // packet A { u8 x, }
+}options	{	lengthOf // @lengthOf(
+= 3
+trueish
+= ' '
+    ;
+    /// triple
+    crc
+// trailing space 
+// @lengthOf(
+=
+    // trailing space 
+    true  ;
+    rootA =""it's""; chars=
+    int32 ;//x
+}
 ")).
-Eval vm_compute in ("<<<M3359>>>" ++ check (runes_of_ascii "root packet matchKey { zchar[ 3 ] pack @calculatedFrom( ""a	b"" ) `doc` , } options { } MetaData A { int8 msg_type , }
+Eval vm_compute in ("<<<M32>>>" ++ check (runes_of_ascii "options	{
+    // `tick` ""quote"" 'q'
+    Foo
+= zchar[
+    1
+]uint8x =""// no comment"" Pad
+=
+    //
+    char[] ;
+    A
+= 4294967296
+    a1 = ""`tick`"" ; } packet BodyLength  {
+@calculatedFrom(
+""packet"" ) roots `// not a comment`,@tag( 10 ) f32 uint8x/// triple
+`" ++ [28040; 24687; 31867; 22411]%N ++ runes_of_ascii "`
+,	}
+
+")).
+Eval vm_compute in ("<<<M609>>>" ++ check (runes_of_ascii "root packet tag { }  packet MetaDataX{char[007	]
 // c
+/// triple
+asx  @calculatedFrom( ""a\""b""
+) `say ""hi""`// " ++ [27880; 37322]%N ++ runes_of_ascii "
+,  @tag(4294967296 )
+    char[1//x
+] packetx @calculatedFrom(""a\""b""
+    ) ) ,
+// " ++ [128512]%N ++ runes_of_ascii " emoji
+// a // b
+@calculatedFrom(""" ++ [233]%N ++ runes_of_ascii "t" ++ [233]%N ++ runes_of_ascii """  ) repeat pack // " ++ [27880; 37322]%N ++ runes_of_ascii "
+,
+    } // c")).
+Eval vm_compute in ("<<<M332>>>" ++ check (runes_of_ascii "// packet A { u8 x, }
+options{
+    T
+=""packet"" ; } MetaData x_y_z
+{
+char roots ,
+    T f32a `{ , }`, } root packet // " ++ [128512]%N ++ runes_of_ascii " emoji
+uint8x
+{ @calculatedFrom( ""// no comment"") repeat As
+{rootA
+@calculatedFrom(
+""" ++ [28040; 24687]%N ++ runes_of_ascii """ ) `{ , }` , u16 zchar`{ , }` ,  char[	7
+]o `" ++ [233]%N ++ runes_of_ascii "` ,
+} ,}
 ")).
-Eval vm_compute in ("<<<M3332>>>" ++ check (runes_of_ascii "root packet matchKey { zchar[ 3 ] pack @calculatedFrom( ""a	b"" ) // c
-`doc` , } options { } MetaData A { int8 msg_type , }")).
-Eval vm_compute in ("<<<M3774>>>" ++ check (runes_of_ascii "root packet matchKey {
+Eval vm_compute in ("<<<M641>>>" ++ check (runes_of_ascii "root packet tag { }  packet MetaDataX{char[007	]
+// c
+/// triple
+asx  @calculatedFrom( ""a\""b""
+) `say ""hi""`// " ++ [27880; 37322]%N ++ runes_of_ascii "
+,  @tag(4294967296 )
+    char[1//x
+] packetx @calculatedFrom(""a\""b""
+    ) ,
+// " ++ [128512]%N ++ runes_of_ascii " emoji
+// a // b
+@calculatedFrom(""" ++ [233]%N ++ runes_of_ascii "t" ++ [233]%N ++ runes_of_ascii """  ) repeat root // " ++ [27880; 37322]%N ++ runes_of_ascii "
+,
+    } // c")).
+Eval vm_compute in ("<<<M1517>>>" ++ check (runes_of_ascii "
+
+  packet P1 {
+	u8
+	a ,
+} packet
+	P2  {P1 ,  }packet
+    P3{ P2,
+
+P1 , }
+packet P4
+{  repeat
+
+P3,P2 ,
+    } root packet
+	P5 { P4,
+
+P3 
+, P1, 
+u8
+
+K
+
+,
+    match
+K
+
+    as
+
+    Body
+{
+
+    4
+
+    : 
+P4
+,	3 :
+    P3  ,  2 
+:
+P2
+
+    ,	1
+:P1  ,
+	} ,}
+")).
+Eval vm_compute in ("<<<M67>>>" ++ check (runes_of_ascii "packet lengthOf {// c
+} root packet
+asx { u32 Z9_
+`say ""hi""` ,
+@tag( 007
+    )match
+    u8x as Logon {
+    [ ""abc""	]: tag,0123456789 : tag,  """ ++ [233]%N ++ runes_of_ascii "t" ++ [233]%N ++ runes_of_ascii """ : int
+    ,
+""`tick`"" : options1 , } ,@leftPad
+( )  repeat
+string  tag
+    ,falsey `// not a comment` ,
+}
+")).
+Eval vm_compute in ("<<<M1337>>>" ++ check (runes_of_ascii "// top
+packet // c0a
+  // c0b
+o { repeat
+    // c3
+Logon uint8x // c5
+,
+    // c6
+} options // c8
+{ // c9
+asx
+    // c10
+= // c11a
+  // c11b
+zchar[ // c12
+3
+    // c13
+] stringy // c15
+=
+    // c16
+'\x00' // c17
+}
+    // c18
+")).
+Eval vm_compute in ("<<<M1987>>>" ++ check (runes_of_ascii "  // top
+    root
+	    // c0
+
+	packet 	 // c1a
+// c1b
+  P { // c3
+
+u16 	 // c4
+a
+
+, 
+// c6
+u32 Sum 	 // c8
+@calculatedFrom(// c9a
+
+// c9b
+  ""CRC32"" // c10
+  ) 	 // c11a
+		// c11b
+, // c12
+  } 
+
+// c13")).
+Eval vm_compute in ("<<<M1506>>>" ++ check (runes_of_ascii "options {
+    FixedStringPadChar = '0';
+}
+packet Q {
+    zchar[4] z,
+    @rightPad('\x00') char[3] n,
+    char[5] d,
+}
+root packet R {
+    Q,
+    zchar[8] top,
+    repeat zchar[2] zs,
+}
+")).
+Eval vm_compute in ("<<<M341>>>" ++ check (runes_of_ascii "packet A
+    { @rightPad (' '
+    )/// triple
+@calculatedFrom(""" ++ [233]%N ++ runes_of_ascii "t" ++ [233]%N ++ runes_of_ascii """	) int16
+    crc
+`tab	here` // " ++ [128512]%N ++ runes_of_ascii " emoji
+, }  MetaData x
+// `tick` ""quote"" 'q'
+// " ++ [27880; 37322]%N ++ runes_of_ascii "
+{
+}
+// trailing space 
+")).
+Eval vm_compute in ("<<<M464>>>" ++ check (runes_of_ascii "packet
+    // `tick` ""quote"" 'q'
+    crc
+// packet A { u8 x, }
+//	t
+{
+u32 a1 ,
+    // trailing space 
+    roots
+charz //
+`two words`,	}
+    MetaData ` int {
+} /// triple")).
+Eval vm_compute in ("<<<M421>>>" ++ check (runes_of_ascii "packet
+    // `tick` ""quote"" 'q'
+    crc
+// packet A { u8 x, }
+//	t
+{
+u32 a1 ,
+    // trailing space 
+    roots
+`two words` //
+charz,	}
+    MetaData int {
+} /// triple")).
+Eval vm_compute in ("<<<M677>>>" ++ check (runes_of_ascii "root packet len // trailing space 
+{
+// " ++ [27880; 37322]%N ++ runes_of_ascii "
+//	t
+char[10
+] metadata	@lengthOf( o ) `crlf
+line`,
+    @rightPad
+( ' '
+) string
+    Header @calculatedFrom( ""a\\""
+    ) }
+")).
+Eval vm_compute in ("<<<M385>>>" ++ check (runes_of_ascii "
+    // `tick` ""quote"" 'q'
+    crc
+// packet A { u8 x, }
+//	t
+{
+u32 a1 ,
+    // trailing space 
+    roots
+charz //
+`two words`,	}
+    MetaData int {
+} /// triple")).
+Eval vm_compute in ("<<<M453>>>" ++ check (runes_of_ascii "packet
+    // `tick` ""quote"" 'q'
+    crc
+// packet A { u8 x, }
+//	t
+{
+u32 a1 ,
+    // trailing space 
+    roots
+charz //
+`two words`,	}
+    MetaData int")).
+Eval vm_compute in ("<<<M1613>>>" ++ check (runes_of_ascii "
+root 
+    // c
+
+  packet
+    matchKey{zchar[
+3 ]
+	pack
+    @calculatedFrom(
+""a	b""
+	)  `doc`
+, } options {}
+MetaData	A
+{	int8
+
+msg_type,}")).
+Eval vm_compute in ("<<<M1436>>>" ++ check (runes_of_ascii "root packet
+    // c1
+P
+    // c2
+{ // c3a
+  // c3b
+char // c4a
+  // c4b
+c , // c6
+u8 // c7a
+  // c7b
+x , // c9a
+  // c9b
+}
+    // c10
+")).
+Eval vm_compute in ("<<<M1642>>>" ++ check (runes_of_ascii "root packet matchKey {
     zchar[3] pack @calculatedFrom(""a	b"") `doc`,
 }
 
 options {
 }
 
+// c
 MetaData A {
     int8 msg_type,
 }")).
-Eval vm_compute in ("<<<M3976>>>" ++ check (runes_of_ascii "packet metadata {
-    Logon {
-        // c
-        A `" ++ [28040; 24687; 31867; 22411]%N ++ runes_of_ascii "`,
-        tag o,
-    },
-    zchar len `// not a comment`,
+Eval vm_compute in ("<<<M1235>>>" ++ check (runes_of_ascii "root packet matchKey { zchar[ 3 ] // c
+pack @calculatedFrom( ""a	b"" ) `doc` , } options { } MetaData A { int8 msg_type , }")).
+Eval vm_compute in ("<<<M1267>>>" ++ check (runes_of_ascii "root packet matchKey { zchar[ 3 ] pack @calculatedFrom( ""a	b"" ) `doc` , } options { } MetaData A { int8 msg_type , // c
 }")).
-Eval vm_compute in ("<<<M1210>>>" ++ check (runes_of_ascii "
-MetaData chars
-    { // " ++ [128512]%N ++ runes_of_ascii " emoji
-trueish
-rootA `say ""hi""` , uint8 Packet , zchar[ 0123456789
-    //
-    ] Z9_
-,	}
+Eval vm_compute in ("<<<M1802>>>" ++ check (runes_of_ascii "
+packet	A
 
-")).
-Eval vm_compute in ("<<<M1049>>>" ++ check (runes_of_ascii "root
-    packet u {
-    @leftPad (	' '
-    // packet A { u8 x, }
-    ) char[	7 ] msg_type @lengthOf( Header) , }
-")).
-Eval vm_compute in ("<<<M1425>>>" ++ check (runes_of_ascii "
-packet
-    falsey { Header@calculatedFrom(,  ) , char[
-    0123456789 ] packetx
-    , } // `tick` ""quote"" 'q'")).
-Eval vm_compute in ("<<<M3046>>>" ++ check (runes_of_ascii "packet A {
-    Inner {
-        u8 x `tab
-	x`,
-        Deep {
-            u8 y `tab
-	x`,
-        },
-    },
-}")).
-Eval vm_compute in ("<<<M4158>>>" ++ check (runes_of_ascii "
-MetaData
-	body
+{ match k  as
 
-{  i64 
-pack `it's`  ,  }
-    packet
-stringy
-{  int16
-	calculatedFrom	// c
-    ,  }
-")).
-Eval vm_compute in ("<<<M283>>>" ++ check (runes_of_ascii "MetaData asx { chars
-f32a , string /// triple
-T , } options
-{ zchar=
-    10
-    // " ++ [27880; 37322]%N ++ runes_of_ascii "
-    crc= true}
-")).
-Eval vm_compute in ("<<<M4237>>>" ++ check (runes_of_ascii "MetaData f32a
-{	u32 roots	, 
-T matchKey`tab	here` , 
-    /// triple
-  // packet A { u8 x, }
+    n
+
+{
+[ 1  ,22,
+
+007 ,	4, 
+5 , 66
+,
+7 
+,8 , 
+9 ,10
+	] :
+B
+
+    ,	2
+
+: C },
     }
 ")).
-Eval vm_compute in ("<<<M3749>>>" ++ check (runes_of_ascii "options {
-    Pad = ""a	b"";
-    //
-    // `tick` ""quote"" 'q'
-    u = '\x00';
-    lengthOf = ' ';
-}")).
-Eval vm_compute in ("<<<M2956>>>" ++ check (runes_of_ascii "packet A {
+Eval vm_compute in ("<<<M1780>>>" ++ check (runes_of_ascii "MetaData 
+// c
+  float  { float64
+charz  `
+`  ,
+	} root
+packet	chars  {
+
+    @rightPad (	'0'
+)Foo ,
+    } ")).
+Eval vm_compute in ("<<<M903>>>" ++ check (runes_of_ascii "packet A {
   match k as n {
-    [""a"", 22, ""c c"", 4, ""e"", 66, ""g"", 8, ""i""] : B
+    [1, ""bb"", 007, ""d"", 5, ""f"", 7, ""h"", 9, ""j"", 11, ""l""] : B,
     2 : C
   },
 }")).
-Eval vm_compute in ("<<<M2976>>>" ++ check (runes_of_ascii "packet A {
+Eval vm_compute in ("<<<M862>>>" ++ check (runes_of_ascii "packet A {
   match k as n {
-    [1, 22, 007, 4, 5, 66, 7, 8, 9, 10, 11] : B
+    [""a"", ""bb"", ""c c"", ""d"", ""e"", ""f"", ""g"", ""h"", ""i""] : B,
     2 : C
   },
 }")).
-Eval vm_compute in ("<<<M3268>>>" ++ check (runes_of_ascii "
+Eval vm_compute in ("<<<M1446>>>" ++ check (runes_of_ascii "  packet
+    Inner
+
+    {	u8
+
+    a
+
+    ,  }	root packet
+
+P
+{ Inner	ref_obj ,
+	u8
+
+x
+, }
+")).
+Eval vm_compute in ("<<<M317>>>" ++ check (runes_of_ascii "packet
+crc { @lengthOf( falsey )Packet /// triple
+`crlf
+line`
+    // trailing space 
+    ,
+}
+")).
+Eval vm_compute in ("<<<M1179>>>" ++ check (runes_of_ascii "
 // c
 MetaData float { float64 charz `
 ` , } root packet chars { @rightPad ( '0' ) Foo , }")).
-Eval vm_compute in ("<<<M3280>>>" ++ check (runes_of_ascii "MetaData float { float64 charz `
-`
+Eval vm_compute in ("<<<M1194>>>" ++ check (runes_of_ascii "MetaData float { float64 charz `
+` , } // c
+root packet chars { @rightPad ( '0' ) Foo , }")).
+Eval vm_compute in ("<<<M1405>>>" ++ check (runes_of_ascii "packet chars { } packet
 // c
-, } root packet chars { @rightPad ( '0' ) Foo , }")).
-Eval vm_compute in ("<<<M3491>>>" ++ check (runes_of_ascii "packet chars { } // c
-packet MetaDataX { @tag( 42 ) i16 string_ , repeat x `say ""hi""` , }")).
-Eval vm_compute in ("<<<M4504>>>" ++ check (runes_of_ascii "// c
-MetaData body {
-    i64 pack `it's`,
-}
-
-packet stringy {
-    int16 calculatedFrom,
+MetaDataX { @tag( 42 ) i16 string_ , repeat x `say ""hi""` , }")).
+Eval vm_compute in ("<<<M874>>>" ++ check (runes_of_ascii "packet A {
+  match k as n {
+    [1, 22, 007, 4, 5, 66, 7, 8, 9, 10] : B
+    2 : C
+  },
 }")).
-Eval vm_compute in ("<<<M2297>>>" ++ check (runes_of_ascii "options
-{ } options { BodyLength= u16 Header=~ f64 ; u128 =
-    true
-    ; } // a // b")).
-Eval vm_compute in ("<<<M2228>>>" ++ check (runes_of_ascii "options
-{ } options BodyLength {= u16 Header= f64 ; u128 =
-    true
-    ; } // a // b")).
-Eval vm_compute in ("<<<M3231>>>" ++ check (runes_of_ascii "packet metadata { Logon { A `" ++ [28040; 24687; 31867; 22411]%N ++ runes_of_ascii "` , tag o // c
-, } , zchar len `// not a comment` , }")).
-Eval vm_compute in ("<<<M2281>>>" ++ check (runes_of_ascii "options
-{ } options { BodyLength= u16 Header= f64 ; u128 =
-    true
-     } // a // b")).
-Eval vm_compute in ("<<<M3454>>>" ++ check (runes_of_ascii "packet o { repeat Logon uint8x , } options { asx = zchar[
+Eval vm_compute in ("<<<M1135>>>" ++ check (runes_of_ascii "packet metadata { Logon { A
 // c
-3 ] stringy = '\x00' }")).
-Eval vm_compute in ("<<<M965>>>" ++ check (runes_of_ascii "root
-packet roots
-{
-    // " ++ [128512]%N ++ runes_of_ascii " emoji
-    calculatedFrom // c
-x_y_z ,
-    } // a // b")).
-Eval vm_compute in ("<<<M3397>>>" ++ check (runes_of_ascii "MetaData body
-// c
-{ i64 pack `it's` , } packet stringy { int16 calculatedFrom , }")).
-Eval vm_compute in ("<<<M1051>>>" ++ check (runes_of_ascii "options {
-//	t
+`" ++ [28040; 24687; 31867; 22411]%N ++ runes_of_ascii "` , tag o , } , zchar len `// not a comment` , }")).
+Eval vm_compute in ("<<<M1340>>>" ++ check (runes_of_ascii "packet // c
+o { repeat Logon uint8x , } options { asx = zchar[ 3 ] stringy = '\x00' }")).
+Eval vm_compute in ("<<<M1372>>>" ++ check (runes_of_ascii "packet o { repeat Logon uint8x , } options { asx = zchar[ 3 ] stringy = // c
+'\x00' }")).
+Eval vm_compute in ("<<<M827>>>" ++ check (runes_of_ascii "packet A {
+  match k as n {
+    [""a"", 22, ""c c"", 4, ""e"", 66] : B,
+    2 : C
+  },
+}")).
+Eval vm_compute in ("<<<M1499>>>" ++ check (runes_of_ascii "packet order_item
+	{ u8 
+a ,
+} 
+root  packet
+	new_order 
+{ order_item
+
+, 
+u8
+
+x,}
+")).
+Eval vm_compute in ("<<<M418>>>" ++ check (runes_of_ascii "packet
+    // `tick` ""quote"" 'q'
+    crc
 // packet A { u8 x, }
-roots // packet A { u8 x, }
-= char[42 ]
-; }")).
-Eval vm_compute in ("<<<M2208>>>" ++ check (runes_of_ascii "
-{ } options { BodyLength= u16 Header= f64 ; u128 =
-    true
-    ; } // a // b")).
-Eval vm_compute in ("<<<M1735>>>" ++ check (runes_of_ascii "options { trueish = ""`tick`"" ; string_= """ ++ [233]%N ++ runes_of_ascii "t" ++ [233]%N ++ runes_of_ascii """
-    // c
-    } root
-    packet")).
-Eval vm_compute in ("<<<M2888>>>" ++ check (runes_of_ascii "packet A {
-  match k as n {
-    [1, ""bb"", 007, ""d""] : B,
-    2 : C
-  },
-}")).
-Eval vm_compute in ("<<<M2874>>>" ++ check (runes_of_ascii "packet A {
-  match k as n {
-    [""a"", ""bb"", ""c c""] : B
-    2 : C
-  },
-}")).
-Eval vm_compute in ("<<<M2285>>>" ++ check (runes_of_ascii "options
-{ } options { BodyLength= u16 Header= f64 ; u128 =
-    true")).
-Eval vm_compute in ("<<<M539>>>" ++ check (runes_of_ascii "root
-packet
-// a // b
-// " ++ [128512]%N ++ runes_of_ascii " emoji
-Z9_ // a // b
-{ // " ++ [128512]%N ++ runes_of_ascii " emoji
-}
-")).
-Eval vm_compute in ("<<<M2808>>>" ++ check (runes_of_ascii ": char[ uint32 float64 uint32 match as i8 uint32 @lengthOf( ' '")).
-Eval vm_compute in ("<<<M22>>>" ++ check (runes_of_ascii "options
-    // a // b
-    {
-float	= char[ 4294967296 ] ; }
-")).
-Eval vm_compute in ("<<<M2414>>>" ++ check (runes_of_ascii "// c
-packet x { @lengthOf( metadata ) repeat lengthOf
-,a1")).
-Eval vm_compute in ("<<<M3740>>>" ++ check (runes_of_ascii "
-root
-
-    packet // c
-    u128 {
-    chars `it's` ,	}
-")).
-Eval vm_compute in ("<<<M1030>>>" ++ check (runes_of_ascii "root packet
-BodyLength{ rootA
-//x
-// " ++ [128512]%N ++ runes_of_ascii " emoji
-roots , }")).
-Eval vm_compute in ("<<<M3047>>>" ++ check (runes_of_ascii "MetaData M {
-    u8 x `tab
-	x`,
-    T t `tab
-	x`,
-}")).
-Eval vm_compute in ("<<<M827>>>" ++ check (runes_of_ascii "MetaData
-zchar{zchar[
-    // " ++ [27880; 37322]%N ++ runes_of_ascii "
-    7 ] crc,
-}
-")).
-Eval vm_compute in ("<<<M1123>>>" ++ check (runes_of_ascii "packet
-    string_{  int64	calculatedFrom , }")).
-Eval vm_compute in ("<<<M2726>>>" ++ check (runes_of_ascii "] uint16 options repeat uint8 = u32 int64 }")).
-Eval vm_compute in ("<<<M4247>>>" ++ check (runes_of_ascii "packet len {
-    int16 trueish `
-    `,
-}")).
-Eval vm_compute in ("<<<M240>>>" ++ check (runes_of_ascii "
-packet Header{ char[] body
-//x
-//
-, }
-")).
-Eval vm_compute in ("<<<M2736>>>" ++ check ([65533; 65533]%N ++ runes_of_ascii "l," ++ [65533]%N ++ runes_of_ascii "," ++ [65533]%N ++ runes_of_ascii ":2fu" ++ [65533; 24; 65533; 65533; 65533]%N ++ runes_of_ascii "AF" ++ [65533; 4; 65533; 65533]%N ++ runes_of_ascii "G" ++ [65533; 65533; 65533]%N ++ runes_of_ascii "_e" ++ [65533; 65533; 65533; 65533; 65533]%N ++ runes_of_ascii "PM" ++ [65533; 65533]%N)).
-Eval vm_compute in ("<<<M951>>>" ++ check (runes_of_ascii "MetaData A
-    {
-//
-// @lengthOf(
-}")).
-Eval vm_compute in ("<<<M2825>>>" ++ check ([19; 29165]%N ++ runes_of_ascii "a" ++ [15; 65533; 127; 65533; 65533; 65533; 65533; 17; 65533]%N ++ runes_of_ascii "=" ++ [65533; 65533; 65533; 65533]%N ++ runes_of_ascii "{=xu" ++ [65533; 26]%N ++ runes_of_ascii "6k" ++ [65533]%N ++ runes_of_ascii "N" ++ [65533; 65533; 65533]%N ++ runes_of_ascii "S" ++ [65533]%N ++ runes_of_ascii """r")).
-Eval vm_compute in ("<<<M2587>>>" ++ check (runes_of_ascii "packet A { x @lengthOf(y) `d`, }")).
-Eval vm_compute in ("<<<M169>>>" ++ check (runes_of_ascii "packet
-body { // @lengthOf(
-}")).
-Eval vm_compute in ("<<<M80>>>" ++ check (runes_of_ascii "packet u8x {
-    //	t
-    }
-
-")).
-Eval vm_compute in ("<<<M1168>>>" ++ check (runes_of_ascii "MetaData Foo// " ++ [128512]%N ++ runes_of_ascii " emoji
-{  }")).
-Eval vm_compute in ("<<<M2623>>>" ++ check (runes_of_ascii "packet A { @tag(x) u8 x, }")).
-Eval vm_compute in ("<<<M3875>>>" ++ check (runes_of_ascii "
-MetaData o 	 // c
+//	t
 {
+u32 a1 ,")).
+Eval vm_compute in ("<<<M1930>>>" ++ check (runes_of_ascii "packet i8i8 {
+    char[1] f32a @calculatedFrom(""\n""),
+    repeat charz,
+}")).
+Eval vm_compute in ("<<<M542>>>" ++ check (runes_of_ascii "root packet tag { }  packet MetaDataX{char[007	]
+// c
+/// triple
+asx")).
+Eval vm_compute in ("<<<M833>>>" ++ check (runes_of_ascii "packet A { Inner { match k as n { [1,22,007,4,5,66] : B, }, }, }")).
+Eval vm_compute in ("<<<M807>>>" ++ check (runes_of_ascii "packet A { Inner { match k as n { [1,22,007,4] : B, }, }, }")).
+Eval vm_compute in ("<<<M1293>>>" ++ check (runes_of_ascii "packet x { @rightPad ( ) repeat roots Logon
+// c
+`doc` , }")).
+Eval vm_compute in ("<<<M1857>>>" ++ check (runes_of_ascii "packet A {
+    u8 x `a
+            b
+          c`,
+}")).
+Eval vm_compute in ("<<<M532>>>" ++ check (runes_of_ascii "root packet tag { }  packet MetaDataX{char[007")).
+Eval vm_compute in ("<<<M928>>>" ++ check (runes_of_ascii "MetaData M {
+    u8 x `
+`,
+    T t `
+`,
+}")).
+Eval vm_compute in ("<<<M1640>>>" ++ check (runes_of_ascii "packet
+    A
+{
+
+u8
+x 
+`d" ++ [8232]%N ++ runes_of_ascii "`, // c" ++ [8232]%N ++ runes_of_ascii "
 }
 
 ")).
-Eval vm_compute in ("<<<M2669>>>" ++ check (runes_of_ascii "options { packet = 1; }")).
-Eval vm_compute in ("<<<M2849>>>" ++ check (runes_of_ascii "z0`2w_O`%NxUiI'L*8[s/")).
-Eval vm_compute in ("<<<M385>>>" ++ check (runes_of_ascii "packet lengthOf
-{ }")).
-Eval vm_compute in ("<<<M4396>>>" ++ check (runes_of_ascii "root packet len {
+Eval vm_compute in ("<<<M941>>>" ++ check (runes_of_ascii "root packet A {
+    u8 x `a
+
+b`,
 }")).
-Eval vm_compute in ("<<<M3110>>>" ++ check (runes_of_ascii "packet A {
-}
-// c" ++ [8287]%N)).
-Eval vm_compute in ("<<<M2796>>>" ++ check (runes_of_ascii "p08:'V`g3?Q~EbZ,T")).
-Eval vm_compute in ("<<<M2758>>>" ++ check (runes_of_ascii "{ uint64 options")).
-Eval vm_compute in ("<<<M1011>>>" ++ check (runes_of_ascii "packet len {}")).
-Eval vm_compute in ("<<<M2751>>>" ++ check ([65533; 65533]%N ++ runes_of_ascii "Q" ++ [65533; 65533; 2]%N ++ runes_of_ascii "l" ++ [65533]%N ++ runes_of_ascii "o" ++ [65533]%N ++ runes_of_ascii "Y")).
-Eval vm_compute in ("<<<M2484>>>" ++ check (runes_of_ascii "@leftpad")).
-Eval vm_compute in ("<<<M2452>>>" ++ check (runes_of_ascii "falsey")).
-Eval vm_compute in ("<<<M2490>>>" ++ check (runes_of_ascii "@tag(")).
-Eval vm_compute in ("<<<M2448>>>" ++ check (runes_of_ascii "true")).
-Eval vm_compute in ("<<<M2499>>>" ++ check (runes_of_ascii "/ /")).
-Eval vm_compute in ("<<<M2453>>>" ++ check (runes_of_ascii "as")).
-Eval vm_compute in ("<<<M2677>>>" ++ check (runes_of_ascii ",")).
+Eval vm_compute in ("<<<M978>>>" ++ check (runes_of_ascii "packet A {
+ u8 x `d" ++ [12288]%N ++ runes_of_ascii "`, // c" ++ [12288]%N ++ runes_of_ascii "
+}")).
+Eval vm_compute in ("<<<M118>>>" ++ check (runes_of_ascii "options{
+i64_ = ""`tick`""}
+
+")).
+Eval vm_compute in ("<<<M1079>>>" ++ check (runes_of_ascii "packet A { // a
+ u8 x, }")).
+Eval vm_compute in ("<<<M1385>>>" ++ check (runes_of_ascii "MetaData o // c
+{ }")).
+Eval vm_compute in ("<<<M1027>>>" ++ check (runes_of_ascii "// c" ++ [11]%N ++ runes_of_ascii "
+packet A {
+}")).
+Eval vm_compute in ("<<<M1049>>>" ++ check (runes_of_ascii "packet A {
+}// c" ++ [6158]%N)).
+Eval vm_compute in ("<<<M132>>>" ++ check (runes_of_ascii "
+
+// c
+")).
+Eval vm_compute in ("<<<M319>>>" ++ check (runes_of_ascii "
+//
+")).
